@@ -2,70 +2,188 @@
 
 Decides the structural necessary conditions C05.R1-R8 of DESIGN.md section 4 (not the behaviour
 of AES/HMAC themselves).
+
+The rules locate their subjects by role (the value compared with ``self.signature``, the arguments that feed
+the fields of the ``EncryptedPacket`` that is built, the stream those arguments are read from ...) on the
+normalised code with single-definition temporaries inlined, and decide on the CFG.  A subject that cannot be
+located is reported as undecided, a located subject that does not satisfy the condition as violated.
 """
 
 from __future__ import annotations
 
 import ast
+import copy
 
 from csverif import absint
 from csverif.astutil import (
-    assignments_to, bind_args, body_walk, const_eval, dotted, fn_calls, is_const, kwarg, NotConst, params, src, statements,
-    param_defaults,
+    assignments_to, bind_args, compare_parts, const_eval, dotted, fn_calls, is_const, kwarg, NotConst, params, src,
+    statements, param_defaults,
 )
-from csverif.cfg import ENTRY, EXIT, RAISE
-from csverif.q import FuncView, calls_to, origin, raise_class, specialise, tv_eval
+from csverif.cfg import ENTRY, EXIT
+from csverif.q import FuncView, calls_to, inline, origin, raise_class, tv_eval
 
 SIG_LEN = 16  # property statement: "first 16 bytes of HMAC-SHA256"
+BLOCK = 16  # AES block size (pycryptodome constant AES.block_size)
 
 
-def _hmac_expr(ctx, f):
-    """Return (call hmac.new, slice upper const) for the signature expression in f."""
-    out = []
+# ---------------------------------------------------------------------------- generic private helpers
+def _inl(f, e, keep=()):
+    """Expression e of function f with every single-definition temporary substituted (None stays None); the names in
+    `keep` (e.g. the stream whose identity matters) are left alone."""
+    return None if e is None else inline(f.node, e, stop=frozenset(keep))
+
+
+def _inl_once(f, e, keep=()):
+    """One level of _inl: single-definition names are replaced by their definitions, which are not expanded further."""
+    return inline(f.node, e, depth=6, stop=frozenset(keep))
+
+
+def _strip_bool(e):
+    """bool(x) -> x (truthiness is all a test looks at)."""
+    while isinstance(e, ast.Call) and dotted(e.func) == "bool" and len(e.args) == 1 and not e.keywords:
+        e = e.args[0]
+    return e
+
+
+class _NoBool(ast.NodeTransformer):
+    def visit_Call(self, node):
+        self.generic_visit(node)
+        if dotted(node.func) == "bool" and len(node.args) == 1 and not node.keywords:
+            return node.args[0]
+        return node
+
+
+def _truth(e):
+    """A copy of test e with every bool(x) replaced by x (inside not/and/or only truthiness matters)."""
+    return _NoBool().visit(copy.deepcopy(e))
+
+
+def _strip_bytes(e):
+    """bytes(x) -> x (copying a bytes-like object does not change its content)."""
+    while isinstance(e, ast.Call) and dotted(e.func) in ("bytes", "bytearray") and len(e.args) == 1 and not e.keywords:
+        e = e.args[0]
+    return e
+
+
+def _spec(ctx, f, assume):
+    """CFG of f with the branch edges removed that are infeasible under the truthiness assumptions; tests are looked at
+    with their temporaries inlined (`must = bool(verify); if must:` is the same test as `if verify:`)."""
+    cfg = ctx.cfg(f)
+    c = copy.copy(cfg)
+    c.g = cfg.g.copy()
+    c._idom = None
+    c._ipdom = None
+    for n, st in cfg.stmt.items():
+        if isinstance(st, (ast.If, ast.While)):
+            v = tv_eval(st.test, assume)
+            if v is None:
+                v = tv_eval(_truth(_inl(f, st.test)), assume)
+            if v is None:
+                continue
+            dead = cfg.edge_node(st, "false" if v else "true")
+            if c.g.has_edge(n, dead):
+                c.g.remove_edge(n, dead)
+    return c
+
+
+def _ext(ctx, f, call):
+    """Dotted external name a call resolves to (import aliases followed), else the literal dotted callee text."""
+    d = dotted(call.func)
+    try:
+        cal = ctx.rs.resolve_call(f, call)
+    except Exception:
+        return d
+    if cal.kind == "external" and cal.fq:
+        return cal.fq
+    return d
+
+
+def _resolved(ctx, f, call):
+    try:
+        return ctx.rs.resolve_call(f, call)
+    except Exception:
+        return None
+
+
+def _is_pkg_call(ctx, f, e, fq):
+    if not isinstance(e, ast.Call):
+        return False
+    cal = _resolved(ctx, f, e)
+    return cal is not None and ((cal.kind == "func" and cal.func is not None and cal.func.fq == fq) or (cal.kind == "class" and cal.fq == fq))
+
+
+def _dfs(n):
+    yield n
+    for c in ast.iter_child_nodes(n):
+        yield from _dfs(c)
+
+
+def _before(ctx, f, a, b):
+    """Is (original) node a evaluated before node b whenever both are?  True / False / None (not ordered by dominance).
+    Inside one statement: operands are evaluated left to right, an argument before the call it is passed to."""
     fv = FuncView.of(f.node)
-    for c in fn_calls(f.node):
-        if dotted(c.func) in ("hmac.new", "hmac.HMAC", "hmac.digest"):
-            # walk up: .digest() then [:N]
-            n = c
-            upper = None
-            chain = []
-            while True:
-                p = fv.parent.get(id(n))
-                if isinstance(p, ast.Attribute) and p.value is n:
-                    chain.append(p.attr)
-                    n = p
-                elif isinstance(p, ast.Call) and p.func is n:
-                    n = p
-                elif isinstance(p, ast.Subscript) and p.value is n and isinstance(p.slice, ast.Slice):
-                    lo, hi = p.slice.lower, p.slice.upper
-                    if (lo is None or is_const(lo, 0)) and hi is not None and p.slice.step is None:
-                        try:
-                            upper = const_eval(hi)
-                        except NotConst:
-                            upper = src(hi)
-                    else:
-                        upper = "slice:" + src(p.slice)
-                    n = p
-                    break
-                else:
-                    break
-            out.append((c, chain, upper))
+    cfg = ctx.cfg(f)
+    sa, sb = fv.stmt_of(a), fv.stmt_of(b)
+    if sa is None or sb is None:
+        return None
+    if sa is sb:
+        order = [id(x) for x in _dfs(sa)]
+        if id(a) not in order or id(b) not in order:
+            return None
+        if any(x is b for x in _dfs(a)):
+            return False
+        if any(x is a for x in _dfs(b)):
+            return True
+        return order.index(id(a)) < order.index(id(b))
+    if not cfg.has(sa) or not cfg.has(sb):
+        return None
+    na, nb = cfg.node(sa), cfg.node(sb)
+    if cfg.dominates(na, nb):
+        return True
+    if cfg.dominates(nb, na):
+        return False
+    return None
+
+
+def _fields(ctx, cls_fq):
+    """Field names of a NamedTuple-style class, in declaration order."""
+    out = []
+    for st in ctx.repo.cls(cls_fq).body:
+        if isinstance(st, ast.AnnAssign) and isinstance(st.target, ast.Name):
+            out.append(st.target.id)
     return out
 
 
-def _digestmod(call: ast.Call):
-    a = None
-    if len(call.args) >= 3:
-        a = call.args[2]
-    a = kwarg(call, "digestmod") or kwarg(call, "digest") or a
-    if a is None:
+def _bind_fields(call, fields):
+    """field -> argument expression of a constructor call (positional or keyword); None if *args/** is involved."""
+    if any(isinstance(a, ast.Starred) for a in call.args) or any(k.arg is None for k in call.keywords):
         return None
-    if isinstance(a, ast.Constant):
-        return str(a.value).lower()
-    d = dotted(a)
-    if d:
-        return d.split(".")[-1].lower()
-    return src(a)
+    out = dict(zip(fields, call.args))
+    for k in call.keywords:
+        out[k.arg] = k.value
+    return out
+
+
+def _flatten_add(e):
+    if isinstance(e, ast.BinOp) and isinstance(e.op, ast.Add):
+        return _flatten_add(e.left) + _flatten_add(e.right)
+    return [e]
+
+
+def _cval(node):
+    try:
+        return const_eval(node) if node is not None else None
+    except NotConst:
+        return None
+
+
+def _mentions(e, dn):
+    return any(dotted(x) == dn for x in ast.walk(e) if isinstance(x, (ast.Attribute, ast.Name)))
+
+
+def _local_names_in(f, e):
+    ps = set(params(f.node))
+    return {x.id for x in ast.walk(e) if isinstance(x, ast.Name) and x.id not in ps and assignments_to(f.node, x.id)}
 
 
 def run(ctx):
@@ -73,9 +191,11 @@ def run(ctx):
     rep.explanation = (
         "Static analysis of dissect/cobaltstrike/c2.py: CFG dominance (verify -> signature check -> decrypt), exit "
         "analysis of raise_for_signature, agreement of signer/verifier HMAC expressions and of the signature-length "
-        "constant across its sites, interval analysis of pad(), cipher construction agreement, framing writer/reader "
-        "agreement, keyword binding of decrypt_packet from BeaconKeys. Decides these structural necessary conditions "
-        "on every path; does not decide AES/HMAC behaviour or plaintext equality."
+        "constant across its sites, exhaustive evaluation of pad() over every residue of the block size, cipher "
+        "construction agreement, framing writer/reader agreement (subjects located by role: the arguments that feed the "
+        "EncryptedPacket fields, the stream they are read from, the decoded length prefix), keyword binding of "
+        "decrypt_packet from BeaconKeys. Decides these structural necessary conditions on every path; does not decide "
+        "AES/HMAC behaviour or plaintext equality."
     )
     rep.not_decided = [
         "that AES-CBC/HMAC-SHA256 compute what they should (library)",
@@ -101,341 +221,1283 @@ def run(ctx):
 # ---------------------------------------------------------------------------- R1
 def r1(ctx, dp):
     cfg = ctx.cfg(dp)
-    ps = params(dp.node)
-    text = "decrypt_data(...)"
+    fn = dp.node
+    ps = params(fn)
+    text = "plaintext only after raise_for_signature(hmac_key)"
     if "verify" not in ps or "hmac_key" not in ps:
-        ctx.ob("R1", "DOM", dp, text, False, "decrypt_packet lost its verify/hmac_key parameters", dp.node)
+        ctx.ob("R1", "DOM", dp, text, False, "decrypt_packet lost its verify/hmac_key parameters", fn)
         return
     for p in ("verify", "hmac_key"):
-        if assignments_to(dp.node, p):
-            ctx.ob("R1", "DOM", dp, f"{p} rebound", False, f"parameter {p} is rebound inside decrypt_packet", dp.node)
-    dflt = param_defaults(dp.node).get("verify")
-    ctx.ob("R1", "DOM", dp, "verify default", dflt is not None and is_const(dflt, True) or dflt is None,
-           f"default of verify is {src(dflt)} (must not default to off)", dp.node)
-    sinks = calls_to(ctx, dp, target_fq="c2.decrypt_data")
-    # any other way to obtain plaintext: a direct cipher.decrypt / AES.new in this function
-    for c in fn_calls(dp.node):
-        if isinstance(c.func, ast.Attribute) and c.func.attr == "decrypt" and c not in sinks:
-            sinks.append(c)
+        if assignments_to(fn, p):
+            ctx.ob("R1", "DOM", dp, f"{p} rebound", False, f"parameter {p} is rebound inside decrypt_packet", fn)
+    dflt = param_defaults(fn).get("verify")
+    ctx.ob("R1", "DOM", dp, "verify default", dflt is None or _cval(dflt) is True,
+           f"default of verify is {src(dflt)} (must not default to off)", fn)
+    dec = ctx.repo.func("c2.decrypt_data")
+    rfs = ctx.repo.func("c2.EncryptedPacket.raise_for_signature")
+    data_sinks = calls_to(ctx, dp, target_fq="c2.decrypt_data")
+    sinks = [(c, bind_args(c, dec.node).get(params(dec.node)[0])) for c in data_sinks]
+    # any other way to obtain plaintext: a direct cipher.decrypt in this function
+    for c in fn_calls(fn):
+        if isinstance(c.func, ast.Attribute) and c.func.attr == "decrypt" and not any(c is s for s, _a in sinks):
+            sinks.append((c, c.args[0] if c.args else None))
     if not sinks:
-        ctx.ob("R1", "DOM", dp, text, False, "no call to decrypt_data found in decrypt_packet", dp.node)
+        ctx.undecided("R1", "DOM", dp, text, "no call that produces plaintext (decrypt_data / <cipher>.decrypt) found in decrypt_packet", fn)
         return
-    guards = [c for c in calls_to(ctx, dp, attr="raise_for_signature")]
-    fv = FuncView.of(dp.node)
-    spec = specialise(cfg, {"verify": True})
-    spec_nokey = specialise(cfg, {"verify": True, "hmac_key": False})
-    for s in sinks:
-        sst = fv.stmt_of(s)
-        sn = cfg.node(sst)
-        good = []
+    guards = calls_to(ctx, dp, target_fq="c2.EncryptedPacket.raise_for_signature", attr="raise_for_signature")
+    inlined_check = not guards and any(
+        (isinstance(n, ast.Call) and (_ext(ctx, dp, n) or "").startswith("hmac.")) or (isinstance(n, ast.Attribute) and n.attr == "signature")
+        for n in ast.walk(fn))
+    fv = FuncView.of(fn)
+    spec = _spec(ctx, dp, {"verify": True})
+    spec_nokey = _spec(ctx, dp, {"verify": True, "hmac_key": False})
+    key_param = [p for p in params(rfs.node) if p != "self"][:1]
+    for s, data_arg in sinks:
+        sn = cfg.node(fv.stmt_of(s))
         if not spec.reaches(ENTRY, sn):
-            ctx.ob("R1", "DOM", dp, src(s) + " [unreachable with verify]", True, "this decrypt call is unreachable when verify is truthy", s)
+            ctx.ob("R1", "DOM", dp, text + " [unreachable with verify]", True, f"{src(s)} is unreachable when verify is truthy", s)
             continue
+        if inlined_check:
+            ctx.undecided("R1", "DOM", dp, text, "decrypt_packet does not call raise_for_signature but handles HMAC/signature "
+                          "values itself: the inlined verification is not understood", s)
+            continue
+        a0 = _inl(dp, data_arg)
+        pkt = dotted(a0)[: -len(".ciphertext")] if dotted(a0) and dotted(a0).endswith(".ciphertext") else None
+        dominating, same = [], []
         for g in guards:
-            gst = fv.stmt_of(g)
-            if not (g.args and dotted(g.args[0]) == "hmac_key"):
+            if not isinstance(g.func, ast.Attribute):
                 continue
-            # same packet: receiver of guard is the object whose .ciphertext is decrypted
-            recv = dotted(g.func.value)
-            a0 = s.args[0] if s.args else None
-            if recv is None or a0 is None or dotted(a0) != f"{recv}.ciphertext":
+            gb = bind_args(g, rfs.node, skip_self=True)
+            key = _inl(dp, gb.get(key_param[0])) if key_param else None
+            if key is None or dotted(_strip_bytes(key)) != "hmac_key":
                 continue
-            if spec.dominates(cfg.node(gst), sn) and cfg.node(gst) != sn:
-                good.append(g)
-        ok = bool(good)
-        detail = (
-            f"with verify truthy, raise_for_signature(hmac_key) on the decrypted packet dominates {src(s)}"
-            if ok
-            else "with verify truthy there is a path to the decrypt call that does not complete raise_for_signature(hmac_key) "
-            "on the same packet: " + " -> ".join(spec.witness_path(ENTRY, sn, avoiding=[cfg.node(fv.stmt_of(g)) for g in guards]))
-        )
-        ctx.ob("R1", "DOM", dp, src(s), ok, detail, s)
+            gn = cfg.node(fv.stmt_of(g))
+            if not (spec.dominates(gn, sn) and gn != sn):
+                continue
+            dominating.append(g)
+            recv = dotted(_inl(dp, g.func.value))
+            if recv is not None and pkt is not None and recv == pkt:
+                same.append(g)
+        if same:
+            ctx.ob("R1", "DOM", dp, text, True, f"with verify truthy, raise_for_signature(hmac_key) on the decrypted packet dominates {src(s)}", s)
+        elif not dominating:
+            ctx.ob("R1", "DOM", dp, text, False,
+                   "with verify truthy there is a path to the decrypt call that does not complete raise_for_signature(hmac_key): "
+                   + " -> ".join(spec.witness_path(ENTRY, sn, avoiding=[cfg.node(fv.stmt_of(g)) for g in guards])), s)
+        elif pkt is not None and all(dotted(_inl(dp, g.func.value)) is not None for g in dominating):
+            ctx.ob("R1", "DOM", dp, text, False,
+                   f"the signature check is made on {[src(g.func.value) for g in dominating]} but the ciphertext of {pkt} is decrypted", s)
+        else:
+            ctx.undecided("R1", "DOM", dp, text, f"a signature check dominates {src(s)} but the decrypted data {src(a0)} "
+                          "could not be related to the checked packet", s)
         # missing key must be rejected: under verify & no hmac_key the sink is unreachable
         reach = spec_nokey.reaches(ENTRY, sn)
-        ctx.ob("R1", "DOM", dp, src(s) + " [no hmac_key]", not reach,
+        ctx.ob("R1", "DOM", dp, "no plaintext without hmac_key", not reach,
                "with verify truthy and hmac_key falsy the decrypt call is unreachable" if not reach else
-               "with verify truthy and hmac_key falsy the decrypt call is reachable: " + " -> ".join(spec_nokey.witness_path(ENTRY, sn)),
-               s)
+               "with verify truthy and hmac_key falsy the decrypt call is reachable: " + " -> ".join(spec_nokey.witness_path(ENTRY, sn)), s)
     # and on that path every exit is raise ValueError
     normal = spec_nokey.reaches(ENTRY, EXIT)
     ctx.ob("R1", "EXIT", dp, "exits [verify, no hmac_key]", not normal,
-           "all exits raise" if not normal else "returns normally with verify truthy and no hmac_key", dp.node)
+           "all exits raise" if not normal else "returns normally with verify truthy and no hmac_key", fn)
     for r in cfg.raise_stmts():
         if spec_nokey.reaches(ENTRY, cfg.node(r)):
             cls = raise_class(r)
-            ctx.ob("R1", "EXIT", dp, src(r), cls == "ValueError", f"raises {cls} for a missing HMAC key (documented: ValueError)", r)
+            ctx.ob("R1", "EXIT", dp, "raise [verify, no hmac_key]", cls == "ValueError", f"raises {cls} for a missing HMAC key (documented: ValueError)", r)
 
 
 # ---------------------------------------------------------------------------- R2
-def r2(ctx, rfs):
-    cfg = ctx.cfg(rfs)
-    tests = []
-    for n, st in cfg.stmt.items():
-        if isinstance(st, ast.If):
-            eq_edge = _equality_edge(st.test)
-            if eq_edge is not None:
-                tests.append((st, eq_edge))
-    if not tests:
-        ctx.ob("R2", "EXIT", rfs, "signature comparison", False, "no equality test between signatures found", rfs.node)
-        return
-    ok_any = False
-    for st, (eq_true, l, r) in tests:
-        sides = {dotted(l), dotted(r)}
-        if "self.signature" not in sides:
-            continue
-        other = r if dotted(l) == "self.signature" else l
-        o = origin(rfs.node, other)
-        has_hmac = any(isinstance(x, ast.Call) and dotted(x.func) in ("hmac.new", "hmac.digest", "hmac.HMAC") for x in ast.walk(o))
-        eq = cfg.edge_node(st, "true" if eq_true else "false")
-        ne = cfg.edge_node(st, "false" if eq_true else "true")
-        # every normal return passes the equal edge; the unequal edge cannot return normally
-        passes = cfg.all_paths_pass(ENTRY, EXIT, [eq])
-        ne_returns = cfg.reaches(ne, EXIT, avoiding=[eq])
-        ok = has_hmac and passes and not ne_returns
-        ok_any = ok_any or ok
-        ctx.ob("R2", "EXIT", rfs, "if " + src(st.test), ok,
-               "every normal return passes the signatures-equal edge; unequal edge only raises" if ok else
-               f"hmac-derived={has_hmac} all-returns-pass-equal-edge={passes} unequal-edge-can-return={ne_returns}", st)
-        for rs in cfg.raise_stmts():
-            if cfg.dominates(ne, cfg.node(rs)):
-                ctx.ob("R2", "EXIT", rfs, src(rs), raise_class(rs) == "ValueError", f"raises {raise_class(rs)} on mismatch", rs)
-    if not ok_any and not any(not o.ok for o in ctx.rep.obs if o.rule.endswith("R2")):
-        ctx.ob("R2", "EXIT", rfs, "signature comparison", False, "no test compares the recomputed HMAC with self.signature", rfs.node)
+_CMP_DIGEST = ("hmac.compare_digest", "compare_digest", "secrets.compare_digest", "_hashlib.compare_digest", "operator.eq")
 
 
-def _equality_edge(test):
+def _equality_edge(ctx, f, test):
     """(equal_on_true_edge, left, right) for ==, !=, hmac.compare_digest, not ..."""
     neg = False
+    test = _strip_bool(test)
     while isinstance(test, ast.UnaryOp) and isinstance(test.op, ast.Not):
         neg = not neg
-        test = test.operand
+        test = _strip_bool(test.operand)
     if isinstance(test, ast.Compare) and len(test.ops) == 1:
         if isinstance(test.ops[0], ast.Eq):
             return (not neg, test.left, test.comparators[0])
         if isinstance(test.ops[0], ast.NotEq):
             return (neg, test.left, test.comparators[0])
-    if isinstance(test, ast.Call) and dotted(test.func) in ("hmac.compare_digest", "compare_digest", "secrets.compare_digest") and len(test.args) == 2:
+    if isinstance(test, ast.Call) and len(test.args) == 2 and not test.keywords and (dotted(test.func) in _CMP_DIGEST or _ext(ctx, f, test) in _CMP_DIGEST):
         return (not neg, test.args[0], test.args[1])
     return None
 
 
+def _is_len(e):
+    return isinstance(e, ast.Call) and dotted(e.func) == "len"
+
+
+def _has_mac(ctx, f, e):
+    return any(isinstance(x, ast.Call) and _ext(ctx, f, x) in _HMAC_ALL for x in ast.walk(e))
+
+
+def _sig_tests(ctx, rfs):
+    """Branch tests of the verifier that (with temporaries inlined) compare a value with the packet's signature:
+    [(stmt, equal_on_true_edge, signature side, other side)]."""
+    cfg = ctx.cfg(rfs)
+    out = []
+    for _n, st in cfg.stmt.items():
+        if isinstance(st, (ast.If, ast.While)):
+            test = _strip_bool(_inl(rfs, st.test))
+            ee = _equality_edge(ctx, rfs, test)
+            if ee is None and isinstance(test, ast.BoolOp):
+                # `A and x == y`: the true edge implies equality; `A or x != y`: the false edge implies equality
+                want = isinstance(test.op, ast.And)
+                cands = []
+                for part in test.values:
+                    pe = _equality_edge(ctx, rfs, part)
+                    if pe is not None and pe[0] == want and (_mentions(pe[1], "self.signature") or _mentions(pe[2], "self.signature")) \
+                            and not _is_len(pe[1]) and not _is_len(pe[2]):
+                        cands.append(pe)
+                cands.sort(key=lambda pe: "self.signature" not in (dotted(pe[1]), dotted(pe[2])))
+                ee = cands[0] if cands else None
+            if ee is None:
+                continue
+            eq_true, l, r = ee
+            if _is_len(l) or _is_len(r):
+                continue  # a comparison of lengths is a sanity check, not the comparison of the signatures
+            ls, rs = _mentions(l, "self.signature"), _mentions(r, "self.signature")
+            if ls == rs:
+                if ls and (_has_mac(ctx, rfs, l) != _has_mac(ctx, rfs, r)):
+                    # both mention it (e.g. the recomputed value is cut to len(self.signature)): the signature side is
+                    # the one that is not derived from the HMAC
+                    sig, other = (r, l) if _has_mac(ctx, rfs, l) else (l, r)
+                    out.append((st, eq_true, sig, other))
+                continue
+            sig, other = (l, r) if ls else (r, l)
+            out.append((st, eq_true, sig, other))
+    return out
+
+
+def r2(ctx, rfs):
+    cfg = ctx.cfg(rfs)
+    text = "signature comparison"
+    tests = _sig_tests(ctx, rfs)
+    # the comparison the property talks about: self.signature against a value derived from an HMAC computation; other
+    # tests that merely look at self.signature (a length sanity check ...) are not it
+    real = [t for t in tests if _has_mac(ctx, rfs, t[3])]
+    opaque = [t for t in tests if t not in real and (_local_names_in(rfs, t[3]) or any(isinstance(x, ast.Call) for x in ast.walk(t[3])))]
+    if not real:
+        fv = FuncView.of(rfs.node)
+        used = [n for n in ast.walk(rfs.node) if isinstance(n, ast.Attribute) and dotted(n) == "self.signature"
+                and not isinstance(fv.stmt_of(n), ast.Raise)]
+        if opaque:
+            st, _eq, _sig, other = opaque[0]
+            ctx.undecided("R2", "EXIT", rfs, text, f"self.signature is compared with {src(other)}, whose derivation from an HMAC could not be followed", st)
+        elif used:
+            ctx.undecided("R2", "EXIT", rfs, text, "self.signature is used, but no branch test comparing it with a recomputed HMAC was recognised", rfs.node)
+        else:
+            ctx.ob("R2", "EXIT", rfs, text, False, "raise_for_signature never compares self.signature with anything", rfs.node)
+        return
+    for st, eq_true, sig, other in real:
+        if dotted(sig) != "self.signature":
+            ctx.ob("R2", "EXIT", rfs, text, False, f"the test compares {src(sig)}, not the whole self.signature, with {src(other)}", st)
+            continue
+        eq = cfg.edge_node(st, "true" if eq_true else "false")
+        ne = cfg.edge_node(st, "false" if eq_true else "true")
+        # every normal return passes the equal edge; the unequal edge cannot return normally
+        passes = cfg.all_paths_pass(ENTRY, EXIT, [eq])
+        ne_returns = cfg.reaches(ne, EXIT, avoiding=[eq])
+        ok = passes and not ne_returns
+        ctx.ob("R2", "EXIT", rfs, text, ok,
+               "every normal return passes the signatures-equal edge; unequal edge only raises" if ok else
+               f"all-returns-pass-equal-edge={passes} unequal-edge-can-return={ne_returns}", st)
+        for rs in cfg.raise_stmts():
+            if cfg.dominates(ne, cfg.node(rs)):
+                ctx.ob("R2", "EXIT", rfs, "raise on mismatch", raise_class(rs) == "ValueError", f"raises {raise_class(rs)} on mismatch", rs)
+
+
 # ---------------------------------------------------------------------------- R3 / R4
+_HMAC_CTOR = ("hmac.new", "hmac.HMAC")
+_HMAC_ONESHOT = ("hmac.digest",)
+_HMAC_ALL = _HMAC_CTOR + _HMAC_ONESHOT
+
+
+def _digest_name(a):
+    if a is None:
+        return None
+    if isinstance(a, ast.Constant):
+        return str(a.value).lower().replace("-", "")
+    if isinstance(a, ast.Call) and not a.args and dotted(a.func):  # hashlib.sha256() instance is not accepted by hmac; keep text
+        return src(a)
+    d = dotted(a)
+    if d:
+        return d.split(".")[-1].lower().replace("openssl_", "")
+    return src(a)
+
+
+def _parse_mac(ctx, f, e):
+    """Structure of a (temporaries-inlined) signature expression `hmac.new(K, M, D).digest()[:N]` / `hmac.digest(K, M, D)[:N]`.
+    Returns None if no HMAC call is met on the way down through slices / method calls / bytes() copies."""
+    slices, chain = [], []
+    n = e
+    while True:
+        n = _strip_bytes(n)
+        if isinstance(n, ast.Call) and _ext(ctx, f, n) in _HMAC_ALL:
+            break
+        if isinstance(n, ast.Subscript):
+            slices.append(n.slice)
+            n = n.value
+            continue
+        if isinstance(n, ast.Call) and isinstance(n.func, ast.Attribute):
+            chain.append(n.func.attr if not n.args and not n.keywords else n.func.attr + "(..)")
+            n = n.func.value
+            continue
+        return None
+    oneshot = _ext(ctx, f, n) in _HMAC_ONESHOT
+    names = ("key", "msg", "digest") if oneshot else ("key", "msg", "digestmod")
+    b = dict(zip(names, n.args))
+    for k in n.keywords:
+        if k.arg:
+            b[k.arg] = k.value
+    msg_opaque = False
+    if b.get("msg") is None and not oneshot:
+        # message fed with <mac>.update(M) instead of the constructor argument
+        ups = [c for c in fn_calls(f.node) if isinstance(c.func, ast.Attribute) and c.func.attr == "update" and _has_mac(ctx, f, origin(f.node, c.func.value))]
+        if len(ups) == 1 and len(ups[0].args) == 1 and not ups[0].keywords:
+            b["msg"] = _inl(f, ups[0].args[0])
+        elif ups:
+            msg_opaque = True
+    # effective truncation: every subscript must be a prefix slice [:k] / [0:k]
+    upper = None
+    for sl in slices:
+        if isinstance(sl, ast.Slice) and sl.step is None and (sl.lower is None or is_const(sl.lower, 0)) and sl.upper is not None:
+            k = _cval(sl.upper)
+            if type(k) is int and k >= 0:
+                upper = k if not isinstance(upper, int) else min(upper, k)
+                continue
+            upper = "non-constant " + src(sl.upper)
+            break
+        upper = "not a prefix slice: [" + src(sl) + "]"
+        break
+    return dict(call=n, key=b.get("key"), msg=b.get("msg"), dm=_digest_name(b.get(names[2])), chain=chain,
+                chain_ok=(chain == [] if oneshot else chain == ["digest"]), upper=upper, sliced=bool(slices), msg_opaque=msg_opaque)
+
+
+def _verifier_mac(ctx, rfs):
+    """The recomputed-signature expression of the verifier: the value compared with self.signature; failing that, any
+    value of the function built on an HMAC call.  -> (parsed | None, how)"""
+    for _st, _eq, _sig, other in _sig_tests(ctx, rfs):
+        p = _parse_mac(ctx, rfs, other)
+        if p is not None:
+            return p, "compared"
+        if _has_mac(ctx, rfs, other):
+            return None, "opaque"
+    seen_mac = False
+    for st in statements(rfs.node):
+        v = getattr(st, "value", None)
+        if isinstance(st, (ast.Assign, ast.AnnAssign, ast.Return, ast.Expr)) and v is not None:
+            iv = _inl(rfs, v)
+            p = _parse_mac(ctx, rfs, iv)
+            if p is not None and p["sliced"]:
+                return p, "assigned"
+            seen_mac = seen_mac or _has_mac(ctx, rfs, iv)
+    return None, ("opaque" if seen_mac else "absent")
+
+
+def _signer_mac(ctx, ep):
+    """(parsed signature | None, how, inlined ciphertext field, ctor call) of the EncryptedPacket built by the signer."""
+    fields = _fields(ctx, "c2.EncryptedPacket")
+    for c in calls_to(ctx, ep, target_fq="c2.EncryptedPacket"):
+        b = _bind_fields(c, fields)
+        if not b or b.get("signature") is None or b.get("ciphertext") is None:
+            continue
+        sig = _inl(ep, b["signature"])
+        ct = _inl(ep, b["ciphertext"])
+        p = _parse_mac(ctx, ep, sig)
+        if p is not None:
+            return p, "field", ct, c
+        return None, ("opaque" if _has_mac(ctx, ep, sig) or _local_names_in(ep, sig) or any(isinstance(x, ast.Call) for x in ast.walk(sig)) else "nomac"), ct, c
+    return None, "noctor", None, None
+
+
 def r3_r4(ctx, rfs, ep):
     sites = 0
-    ver = _hmac_expr(ctx, rfs)
-    sig = _hmac_expr(ctx, ep)
-    if len(ver) != 1 or len(sig) != 1:
-        ctx.ob("R3", "AGREE", rfs, "hmac.new(...)", False, f"expected one HMAC computation each, found verifier={len(ver)} signer={len(sig)}", rfs.node)
-        return
-    (vc, vchain, vup), (sc, schain, sup) = ver[0], sig[0]
-    dm_v, dm_s = _digestmod(vc), _digestmod(sc)
-    ctx.ob("R3", "AGREE", rfs, "digestmod", dm_v == dm_s == "sha256", f"verifier digest={dm_v} signer digest={dm_s} (SHA-256 required)", vc)
-    ctx.ob("R3", "AGREE", rfs, "digest chain", vchain == schain == ["digest"], f"verifier chain={vchain} signer chain={schain}", vc)
-    # message: the ciphertext on both sides
-    vmsg = vc.args[1] if len(vc.args) > 1 else kwarg(vc, "msg")
-    smsg = sc.args[1] if len(sc.args) > 1 else kwarg(sc, "msg")
-    ctx.ob("R3", "AGREE", rfs, "verifier message", dotted(vmsg) == "self.ciphertext", f"verifier authenticates {src(vmsg)} (must be the ciphertext)", vc)
-    # signer: msg local must be (a) result of encrypt_data and (b) the ciphertext argument of the EncryptedPacket built
-    s_ok = False
-    detail = f"signer authenticates {src(smsg)}"
-    if smsg is not None:
-        o = origin(ep.node, smsg)
-        is_ct = isinstance(o, ast.Call) and any(c is o for c in calls_to(ctx, ep, target_fq="c2.encrypt_data"))
-        ctor = calls_to(ctx, ep, target_fq="c2.EncryptedPacket")
-        bound = False
-        for c in ctor:
-            a0 = c.args[0] if c.args else kwarg(c, "ciphertext")
-            if a0 is not None and src(a0) == src(smsg):
-                bound = True
-        s_ok = is_ct and bound
-        detail += f"; is encrypt_data result={is_ct}; is the ciphertext field of the returned packet={bound}"
-    ctx.ob("R3", "AGREE", ep, "signer message", s_ok, detail, sc)
-    vkey = vc.args[0] if vc.args else kwarg(vc, "key")
-    skey = sc.args[0] if sc.args else kwarg(sc, "key")
-    ctx.ob("R3", "AGREE", rfs, "keys", dotted(vkey) == "hmac_key" and dotted(skey) == "hmac_key",
-           f"verifier key={src(vkey)} signer key={src(skey)} (both the hmac_key parameter)", vc)
-    # signature field of the packet is the signer's truncated digest
-    # R4: truncation constant
-    ctx.ob("R4", "TABLE", rfs, "verifier [:N]", vup == SIG_LEN, f"verifier truncates digest to {vup} (16 required)", vc)
-    ctx.ob("R4", "TABLE", ep, "signer [:N]", sup == SIG_LEN, f"signer truncates digest to {sup} (16 required)", sc)
-    sites += 2
-    for fq in ("c2.ClientC2Data.iter_encrypted_packets", "c2.ServerC2Data.iter_encrypted_packets"):
+    ver, vhow = _verifier_mac(ctx, rfs)
+    sig, show, s_ct, s_ctor = _signer_mac(ctx, ep)
+    # ---- verifier
+    if ver is None:
+        if vhow == "absent":
+            ctx.ob("R3", "AGREE", rfs, "verifier HMAC", False, "raise_for_signature computes no HMAC", rfs.node)
+        else:
+            ctx.undecided("R3", "AGREE", rfs, "verifier HMAC", "an HMAC is computed but the expression compared with the signature is not of the form "
+                          "HMAC(key, msg, digest).digest()[:N]", rfs.node)
+    else:
+        vc = ver["call"]
+        ctx.ob("R3", "AGREE", rfs, "verifier digest", ver["dm"] == "sha256" and ver["chain_ok"],
+               f"verifier digest={ver['dm']} via {ver['chain'] or 'one-shot'} (raw SHA-256 digest required)", vc)
+        vmsg = _strip_bytes(ver["msg"]) if ver["msg"] is not None else None
+        if ver["msg_opaque"]:
+            ctx.undecided("R3", "AGREE", rfs, "verifier message", "the HMAC is fed by several update() calls: authenticated message not located", vc)
+        else:
+            ctx.ob("R3", "AGREE", rfs, "verifier message", vmsg is not None and dotted(vmsg) == "self.ciphertext",
+                   f"verifier authenticates {src(vmsg)} (must be the ciphertext)", vc)
+        vkey = _strip_bytes(ver["key"]) if ver["key"] is not None else None
+        k_ok = isinstance(vkey, ast.Name) and vkey.id in params(rfs.node) and vkey.id != "self" and not assignments_to(rfs.node, vkey.id)
+        ctx.ob("R3", "AGREE", rfs, "verifier key", k_ok, f"verifier key={src(vkey)} (must be the key parameter, unmodified)", vc)
+        ctx.ob("R4", "TABLE", rfs, "verifier [:N]", ver["upper"] == SIG_LEN, f"verifier truncates digest to {ver['upper']} (16 required)", vc)
+        sites += 1
+    # ---- signer
+    if sig is None:
+        if show == "nomac":
+            ctx.ob("R3", "AGREE", ep, "signer HMAC", False, "the signature field of the packet built by encrypt_packet is not an HMAC", s_ctor)
+        else:
+            ctx.undecided("R3", "AGREE", ep, "signer HMAC", "the signature field of the EncryptedPacket built by encrypt_packet could not be "
+                          f"located or is not of the form HMAC(key, msg, digest).digest()[:N] ({show})", s_ctor or ep.node)
+    else:
+        sc = sig["call"]
+        ctx.ob("R3", "AGREE", ep, "signer digest", sig["dm"] == "sha256" and sig["chain_ok"],
+               f"signer digest={sig['dm']} via {sig['chain'] or 'one-shot'} (raw SHA-256 digest required)", sc)
+        smsg = _strip_bytes(sig["msg"]) if sig["msg"] is not None else None
+        bound = smsg is not None and s_ct is not None and src(smsg) == src(_strip_bytes(s_ct))
+        is_ct = s_ct is not None and _is_pkg_call(ctx, ep, _strip_bytes(s_ct), "c2.encrypt_data")
+        detail = f"signer authenticates {src(smsg)}; is the ciphertext field of the returned packet={bound}; that field is the encrypt_data result={is_ct}"
+        if sig["msg_opaque"]:
+            ctx.undecided("R3", "AGREE", ep, "signer message", "the HMAC is fed by several update() calls: authenticated message not located", sc)
+        elif bound and not is_ct and any(isinstance(x, ast.Call) for x in ast.walk(_strip_bytes(s_ct))):
+            # the signed value is what is sent, but it is produced by something other than a direct encrypt_data call
+            ctx.undecided("R3", "AGREE", ep, "signer message", detail + " (origin of the ciphertext not understood)", sc)
+        else:
+            ctx.ob("R3", "AGREE", ep, "signer message", bound and is_ct, detail, sc)
+        skey = _strip_bytes(sig["key"]) if sig["key"] is not None else None
+        fwd = set()
+        for c in calls_to(ctx, ep, target_fq="c2.encrypt_data"):
+            for v in bind_args(c, ctx.repo.func("c2.encrypt_data").node).values():
+                d = dotted(_inl(ep, v)) if v is not None else None
+                if d:
+                    fwd.add(d)
+        k_ok = isinstance(skey, ast.Name) and skey.id in params(ep.node) and not assignments_to(ep.node, skey.id) and skey.id not in fwd
+        ctx.ob("R3", "AGREE", ep, "signer key", k_ok, f"signer key={src(skey)} (must be a key parameter of its own, not the AES key/IV/plaintext)", sc)
+        ctx.ob("R4", "TABLE", ep, "signer [:N]", sig["upper"] == SIG_LEN, f"signer truncates digest to {sig['upper']} (16 required)", sc)
+        sites += 1
+    if ver is not None and sig is not None:
+        ctx.ob("R3", "AGREE", rfs, "signer/verifier agreement", (ver["dm"], ver["chain_ok"], ver["upper"]) == (sig["dm"], sig["chain_ok"], sig["upper"]),
+               f"verifier (digest, raw digest, N)={(ver['dm'], ver['chain_ok'], ver['upper'])} signer={(sig['dm'], sig['chain_ok'], sig['upper'])}", ver["call"])
+    # ---- framing readers: the signature length again
+    for fq in ("c2.ServerC2Data.iter_encrypted_packets", "c2.ClientC2Data.iter_encrypted_packets"):
         f = ctx.repo.func(fq)
-        reads = [c for c in fn_calls(f.node) if isinstance(c.func, ast.Attribute) and c.func.attr == "read"]
-        got_ct = got_sig = False
-        for c in reads:
-            if not c.args:
-                continue
-            a = c.args[0]
-            if isinstance(a, ast.BinOp) and isinstance(a.op, ast.Sub):
-                try:
-                    k = const_eval(a.right)
-                except NotConst:
-                    k = src(a.right)
-                ctx.ob("R4", "TABLE", f, "ciphertext read", k == SIG_LEN, f"ciphertext length is {src(a)}: subtracts {k} (16 required)", c)
-                got_ct = True
-                sites += 1
-            else:
-                try:
-                    k = const_eval(a)
-                except NotConst:
-                    continue
-                ctx.ob("R4", "TABLE", f, "signature read", k == SIG_LEN, f"signature read length {k} (16 required)", c)
-                got_sig = True
-                sites += 1
-        if not (got_ct and got_sig):
-            ctx.ob("R4", "TABLE", f, "framing reads", False, f"expected read(<size> - 16) and read(16); found ct={got_ct} sig={got_sig}", f.node)
-        # order: ciphertext read precedes signature read
-        if got_ct and got_sig:
-            order = [("ct" if isinstance(c.args[0], ast.BinOp) else "sig") for c in reads if c.args]
-            ctx.ob("R7", "AGREE", f, "read order", order[:2] == ["ct", "sig"], f"reads in order {order} (ciphertext then signature)", f.node)
+        sites += _r4_reader(ctx, f)
     ctx.rep.counts["signature_length_sites"] = sites
 
 
+# ---------------------------------------------------------------------------- framing readers (R4 / R7)
+_CONSUMING = ("read", "read1", "readline", "readinto", "seek", "write", "truncate")
+
+
+def _split_minus_const(e):
+    """e == ATOM - K (as polynomials, K a non-negative int): (node of ATOM inside e, K); else None."""
+    p = absint.sympoly(e)
+    if p is None:
+        return None
+    c = p.terms.get((), 0)
+    rest = {k: v for k, v in p.terms.items() if k != ()}
+    if len(rest) != 1 or c.denominator != 1:
+        return None
+    (mono, coef), = rest.items()
+    if len(mono) != 1 or coef != 1:
+        return None
+    for x in _dfs(e):
+        if isinstance(x, (ast.Call, ast.Attribute, ast.Name)) and (dotted(x) == mono[0] or src(x) == mono[0]):
+            return x, -int(c)
+    return None
+
+
+def _reader_packets(ctx, f):
+    """The EncryptedPacket constructions of a framing reader with their ciphertext/signature sources located by role.
+    mode 'read': both fields are <S>.read(n) on one stream S; mode 'slice': both are slices of one buffer expression."""
+    fields = _fields(ctx, "c2.EncryptedPacket")
+    out = []
+    for c in calls_to(ctx, f, target_fq="c2.EncryptedPacket"):
+        b = _bind_fields(c, fields)
+        m = dict(ctor=c, mode=None, why="")
+        out.append(m)
+        if not b or b.get("ciphertext") is None or b.get("signature") is None:
+            m["why"] = "constructor arguments could not be bound to the fields"
+            continue
+        ct = _strip_bytes(origin(f.node, _strip_bytes(b["ciphertext"])))
+        sg = _strip_bytes(origin(f.node, _strip_bytes(b["signature"])))
+        m["ct"], m["sig"] = ct, sg
+
+        def is_read(x):
+            return isinstance(x, ast.Call) and isinstance(x.func, ast.Attribute) and x.func.attr == "read" and dotted(x.func.value) is not None
+
+        if is_read(ct) and is_read(sg):
+            if dotted(ct.func.value) != dotted(sg.func.value):
+                m["why"] = f"ciphertext is read from {src(ct.func.value)} and signature from {src(sg.func.value)}"
+                continue
+            if len(ct.args) != 1 or len(sg.args) != 1 or ct.keywords or sg.keywords:
+                m["why"] = "a field is read without an explicit length"
+                continue
+            s = dotted(ct.func.value)
+            m.update(mode="read", stream=s, n_ct=_inl(f, ct.args[0], keep=[s.split(".")[0]]), n_sig=_inl(f, sg.args[0], keep=[s.split(".")[0]]))
+        elif isinstance(ct, ast.Subscript) and isinstance(sg, ast.Subscript) and isinstance(ct.slice, ast.Slice) and isinstance(sg.slice, ast.Slice):
+            bc, bs = _inl(f, ct.value), _inl(f, sg.value)
+            if src(bc) != src(bs):
+                m["why"] = f"ciphertext is cut from {src(bc)} and signature from {src(bs)}"
+                continue
+            m.update(mode="slice", base=bc, base_orig=origin(f.node, ct.value))
+        else:
+            m["why"] = f"fields come from {src(ct)} / {src(sg)}: neither two reads of one stream nor two slices of one buffer"
+    return out
+
+
+def _r4_reader(ctx, f):
+    sites = 0
+    pk = _reader_packets(ctx, f)
+    if not pk:
+        ctx.undecided("R4", "TABLE", f, "framing reads", "no EncryptedPacket construction found in the reader", f.node)
+        return 0
+    for m in pk:
+        if m["mode"] is None:
+            ctx.undecided("R4", "TABLE", f, "framing reads", m["why"], m["ctor"])
+            continue
+        if m["mode"] == "read":
+            sp = _split_minus_const(m["n_ct"])
+            if sp is None:
+                k0 = _cval(m["n_ct"])
+                if type(k0) is int:
+                    ctx.ob("R4", "TABLE", f, "ciphertext read", False, f"ciphertext length is the constant {k0}, not <frame size> - 16", m["ct"])
+                else:
+                    ctx.undecided("R4", "TABLE", f, "ciphertext read", f"ciphertext length {src(m['n_ct'])} is not of the form <size> - K", m["ct"])
+            else:
+                m["size_node"] = sp[0]
+                ctx.ob("R4", "TABLE", f, "ciphertext read", sp[1] == SIG_LEN, f"ciphertext length is {src(m['n_ct'])}: subtracts {sp[1]} (16 required)", m["ct"])
+                sites += 1
+            k = _cval(m["n_sig"])
+            if type(k) is int:
+                ctx.ob("R4", "TABLE", f, "signature read", k == SIG_LEN, f"signature read length {k} (16 required)", m["sig"])
+                sites += 1
+            else:
+                ctx.undecided("R4", "TABLE", f, "signature read", f"signature read length {src(m['n_sig'])} is not a constant", m["sig"])
+        else:
+            cs, ss = m["ct"].slice, m["sig"].slice
+            kc = _cval(cs.upper) if (cs.lower is None or is_const(cs.lower, 0)) and cs.step is None and cs.upper is not None else None
+            ks = _cval(ss.lower) if ss.upper is None and ss.step is None and ss.lower is not None else None
+            if type(kc) is int and type(ks) is int and kc < 0 and ks < 0:
+                ctx.ob("R4", "TABLE", f, "ciphertext read", -kc == SIG_LEN, f"ciphertext is [{src(cs)}] of the frame (all but the last 16 bytes required)", m["ct"])
+                ctx.ob("R4", "TABLE", f, "signature read", -ks == SIG_LEN, f"signature is [{src(ss)}] of the frame (the last 16 bytes required)", m["sig"])
+                sites += 2
+            else:
+                ctx.undecided("R4", "TABLE", f, "framing reads", f"slices [{src(cs)}] / [{src(ss)}] are not of the form [:-K] / [-K:]", m["ctor"])
+    return sites
+
+
 # ---------------------------------------------------------------------------- R5
+class _Unsupported(Exception):
+    """The concrete evaluator met a construct it does not model: nothing can be concluded."""
+
+
+class _Return(Exception):
+    def __init__(self, value):
+        self.value = value
+
+
+_BIN = {
+    ast.Add: lambda a, b: a + b, ast.Sub: lambda a, b: a - b, ast.Mult: lambda a, b: a * b, ast.FloorDiv: lambda a, b: a // b,
+    ast.Mod: lambda a, b: a % b, ast.BitAnd: lambda a, b: a & b, ast.BitOr: lambda a, b: a | b, ast.BitXor: lambda a, b: a ^ b,
+    ast.LShift: lambda a, b: a << b, ast.RShift: lambda a, b: a >> b,
+}
+_CMP = {
+    ast.Eq: lambda a, b: a == b, ast.NotEq: lambda a, b: a != b, ast.Lt: lambda a, b: a < b, ast.LtE: lambda a, b: a <= b,
+    ast.Gt: lambda a, b: a > b, ast.GtE: lambda a, b: a >= b, ast.Is: lambda a, b: a is b, ast.IsNot: lambda a, b: a is not b,
+    ast.In: lambda a, b: a in b, ast.NotIn: lambda a, b: a not in b,
+}
+_PURE_FUNCS = {"len": len, "min": min, "max": max, "abs": abs, "divmod": divmod, "int": int, "bool": bool, "bytes": bytes, "bytearray": bytes}
+_PURE_METHODS = {"ljust", "rjust", "zfill", "center"}
+_KNOWN_ATTRS = {"AES.block_size": BLOCK}
+
+
+def _cev(e, env):
+    """Concrete value of a side-effect free expression over ints/bytes/bools/tuples (never executes repository code:
+    only the arithmetic, comparison, slicing and builtin operations listed above are interpreted)."""
+    try:
+        return _cev0(e, env)
+    except _Unsupported:
+        raise
+    except RecursionError:
+        raise _Unsupported("recursion")
+    except Exception as ex:  # the modelled operation itself failed (ZeroDivisionError, TypeError ...): not decided here
+        raise _Unsupported(f"{type(ex).__name__} evaluating {src(e)}")
+
+
+def _cev0(e, env):
+    if isinstance(e, ast.Constant):
+        return e.value
+    if isinstance(e, ast.Name):
+        if e.id in env:
+            return env[e.id]
+        raise _Unsupported("name " + e.id)
+    if isinstance(e, ast.Attribute):
+        d = dotted(e)
+        if d in _KNOWN_ATTRS:
+            return _KNOWN_ATTRS[d]
+        raise _Unsupported("attribute " + src(e))
+    if isinstance(e, ast.BinOp) and type(e.op) in _BIN:
+        a, b = _cev0(e.left, env), _cev0(e.right, env)
+        if isinstance(e.op, (ast.Mult, ast.LShift)) and any(isinstance(x, int) and abs(x) > 1 << 16 for x in (a, b)):
+            raise _Unsupported("large operand")
+        return _BIN[type(e.op)](a, b)
+    if isinstance(e, ast.UnaryOp):
+        v = _cev0(e.operand, env)
+        if isinstance(e.op, ast.USub):
+            return -v
+        if isinstance(e.op, ast.UAdd):
+            return +v
+        if isinstance(e.op, ast.Not):
+            return not v
+        if isinstance(e.op, ast.Invert):
+            return ~v
+    if isinstance(e, ast.BoolOp):
+        v = None
+        for x in e.values:
+            v = _cev0(x, env)
+            if isinstance(e.op, ast.And) and not v:
+                return v
+            if isinstance(e.op, ast.Or) and v:
+                return v
+        return v
+    if isinstance(e, ast.Compare):
+        left = _cev0(e.left, env)
+        for op, r in zip(e.ops, e.comparators):
+            right = _cev0(r, env)
+            if type(op) not in _CMP:
+                raise _Unsupported(src(e))
+            if not _CMP[type(op)](left, right):
+                return False
+            left = right
+        return True
+    if isinstance(e, ast.IfExp):
+        return _cev0(e.body, env) if _cev0(e.test, env) else _cev0(e.orelse, env)
+    if isinstance(e, (ast.Tuple, ast.List)):
+        vals = [_cev0(x, env) for x in e.elts]
+        return tuple(vals) if isinstance(e, ast.Tuple) else vals
+    if isinstance(e, ast.Subscript):
+        base = _cev0(e.value, env)
+        if isinstance(e.slice, ast.Slice):
+            lo = _cev0(e.slice.lower, env) if e.slice.lower is not None else None
+            hi = _cev0(e.slice.upper, env) if e.slice.upper is not None else None
+            st = _cev0(e.slice.step, env) if e.slice.step is not None else None
+            return base[lo:hi:st]
+        return base[_cev0(e.slice, env)]
+    if isinstance(e, ast.Call) and not any(k.arg is None for k in e.keywords) and not any(isinstance(a, ast.Starred) for a in e.args):
+        args = [_cev0(a, env) for a in e.args]
+        kw = {k.arg: _cev0(k.value, env) for k in e.keywords}
+        d = dotted(e.func)
+        if d in _PURE_FUNCS and d not in env:
+            if d in ("bytes", "bytearray") and args and isinstance(args[0], int) and args[0] > 1 << 16:
+                raise _Unsupported("large operand")
+            return _PURE_FUNCS[d](*args, **kw)
+        if isinstance(e.func, ast.Attribute) and e.func.attr in _PURE_METHODS:
+            recv = _cev0(e.func.value, env)
+            if isinstance(recv, (bytes, str)) and all(isinstance(a, (int, bytes, str)) for a in args) and not kw and (not args or not isinstance(args[0], int) or args[0] < 1 << 16):
+                return getattr(recv, e.func.attr)(*args)
+    raise _Unsupported(src(e))
+
+
+def _crun(body, env, fuel):
+    """Run a statement list concretely (assignments, if, while, return); raises _Return / _Unsupported."""
+    for st in body:
+        fuel[0] -= 1
+        if fuel[0] < 0:
+            raise _Unsupported("step limit")
+        if isinstance(st, ast.Assign):
+            v = _cev(st.value, env)
+            for t in st.targets:
+                _cassign(t, v, env)
+        elif isinstance(st, ast.AnnAssign):
+            if st.value is not None:
+                _cassign(st.target, _cev(st.value, env), env)
+        elif isinstance(st, ast.AugAssign) and isinstance(st.target, ast.Name) and type(st.op) in _BIN:
+            env[st.target.id] = _cev(ast.BinOp(left=ast.Name(id=st.target.id, ctx=ast.Load()), op=st.op, right=st.value), env)
+        elif isinstance(st, ast.Return):
+            raise _Return(_cev(st.value, env) if st.value is not None else None)
+        elif isinstance(st, ast.If):
+            _crun(st.body if _cev(st.test, env) else st.orelse, env, fuel)
+        elif isinstance(st, ast.While) and not st.orelse:
+            while _cev(st.test, env):
+                fuel[0] -= 1
+                if fuel[0] < 0:
+                    raise _Unsupported("step limit")
+                if any(isinstance(x, (ast.Break, ast.Continue)) for b in st.body for x in ast.walk(b)):
+                    raise _Unsupported("break/continue")
+                _crun(st.body, env, fuel)
+        elif isinstance(st, ast.Pass):
+            pass
+        elif isinstance(st, ast.Expr) and isinstance(st.value, ast.Constant):
+            pass
+        elif isinstance(st, ast.Assert):
+            if not _cev(st.test, env):
+                raise _Unsupported("assert fails")
+        else:
+            raise _Unsupported(type(st).__name__)
+
+
+def _cassign(t, v, env):
+    if isinstance(t, ast.Name):
+        env[t.id] = v
+    elif isinstance(t, (ast.Tuple, ast.List)) and isinstance(v, (tuple, list)) and len(v) == len(t.elts):
+        for te, ve in zip(t.elts, v):
+            _cassign(te, ve, env)
+    else:
+        raise _Unsupported("assignment target " + src(t))
+
+
+def _pad_model(f, data):
+    """Concrete result of pad(data) with every other parameter at its default."""
+    ps = params(f.node)
+    env = {ps[0]: data}
+    for p, d in param_defaults(f.node).items():
+        if p != ps[0]:
+            env[p] = _cev(d, {})
+    missing = [p for p in ps if p not in env]
+    if missing:
+        raise _Unsupported("parameters without default: " + ", ".join(missing))
+    try:
+        _crun(f.node.body, env, [2000])
+    except _Return as r:
+        return r.value
+    return None
+
+
 def r5(ctx):
     f = ctx.repo.func("c2.pad")
-    ps = params(f.node)
-    dflt = param_defaults(f.node).get("block_size")
-    bs_ok = dflt is not None and dotted(dflt) == "AES.block_size" or (dflt is not None and is_const(dflt, 16))
-    ctx.ob("R5", "ABS", f, "block_size default", bs_ok, f"block_size defaults to {src(dflt)} (AES.block_size = 16)", f.node)
-    init = {ps[0]: absint.abytes(0, None), "block_size": absint.aint(16, 16)}
-    it = absint.Interp(f.node, init)
-    it.run()
-    rets = [s for s in statements(f.node) if isinstance(s, ast.Return)]
-    if len(rets) != 1:
-        ctx.ob("R5", "ABS", f, "return", False, f"{len(rets)} return statements (expected 1)", f.node)
-        return
-    rv = rets[0].value
-    ok = False
-    detail = f"returns {src(rv)}"
-    if isinstance(rv, ast.BinOp) and isinstance(rv.op, ast.Add) and dotted(rv.left) == ps[0]:
-        fill = rv.right
-        if isinstance(fill, ast.BinOp) and isinstance(fill.op, ast.Mult):
-            byts, cnt = (fill.left, fill.right) if isinstance(fill.left, ast.Constant) else (fill.right, fill.left)
-            if isinstance(byts, ast.Constant) and byts.value == b"A":
-                env = it.before.get(id(rets[0]), {})
-                v = it.ev(cnt, env)
-                ok = v.kind == "int" and v.itv.within(1, 16)
-                detail = f"pad count {src(cnt)} has interval {v.itv} for len(data) >= 0, block_size = 16 (needs [1,16]); fill byte b'A'"
-            else:
-                detail = f"fill byte is {src(byts)} (b'A' required)"
-    ctx.ob("R5", "ABS", f, "return " + src(rv), ok, detail, rets[0])
+    text = "pad(data) == data + b'A' * (16 - len(data) % 16)"
+    # exhaustive over every residue modulo the block size (three periods), decided by concrete evaluation of the body
+    bad = None
+    reason = None
+    try:
+        for n in range(0, 3 * BLOCK + 2):
+            data = bytes((i % 60) + 1 for i in range(n))  # no b'A' inside
+            got = _pad_model(f, data)
+            want = data + b"A" * (BLOCK - n % BLOCK)
+            if not isinstance(got, (bytes, bytearray)) or bytes(got) != want:
+                if isinstance(got, (bytes, bytearray)) and bytes(got[:n]) == data:
+                    tail = bytes(got[n:])
+                    bad = f"len(data)={n}: appends {len(tail)} byte(s) {tail[:4]!r}{'..' if len(tail) > 4 else ''}, required {BLOCK - n % BLOCK} x b'A'"
+                else:
+                    bad = f"len(data)={n}: result {got!r:.60} is not data followed by padding"
+                break
+    except _Unsupported as ex:
+        reason = str(ex)
+    if reason is None:
+        ctx.ob("R5", "ABS", f, text, bad is None, "evaluated for every len(data) in 0..49 with the default block size: appends 1-16 bytes b'A' up to "
+               "the next multiple of 16" if bad is None else bad, f.node)
+    else:
+        _r5_pad_intervals(ctx, f, text, reason)
     # encrypt_data encrypts pad(data); decrypt_data returns cipher output unmodified
     enc = ctx.repo.func("c2.encrypt_data")
     dec = ctx.repo.func("c2.decrypt_data")
-    e_ok = False
-    for c in fn_calls(enc.node):
-        if isinstance(c.func, ast.Attribute) and c.func.attr == "encrypt" and c.args:
-            a = origin(enc.node, c.args[0])
-            if isinstance(a, ast.Call) and any(a is x for x in calls_to(ctx, enc, target_fq="c2.pad")) and a.args and dotted(a.args[0]) == params(enc.node)[0]:
-                extra = [k.arg for k in a.keywords] + [src(x) for x in a.args[1:]]
-                e_ok = not extra
-    ctx.ob("R5", "AGREE", enc, "cipher.encrypt(pad(data))", e_ok, "encrypt_data encrypts pad(<data param>) with the default block size" if e_ok else "encrypt_data does not encrypt pad(data)", enc.node)
-    d_ok = False
-    for r in [s for s in statements(dec.node) if isinstance(s, ast.Return)]:
-        v = origin(dec.node, r.value) if r.value is not None else None
-        if isinstance(v, ast.Call) and isinstance(v.func, ast.Attribute) and v.func.attr == "decrypt" and v.args and dotted(v.args[0]) == params(dec.node)[0]:
-            d_ok = True
+    _r5_cipher_io(ctx, enc, "encrypt", f)
+    _r5_cipher_io(ctx, dec, "decrypt", None)
+
+
+def _r5_pad_intervals(ctx, f, text, reason):
+    """Fallback when the body of pad() cannot be evaluated concretely: interval analysis of the fill count."""
+    ps = params(f.node)
+    init = {ps[0]: absint.abytes(0, None)}
+    for p, d in param_defaults(f.node).items():
+        if _cval(d) == BLOCK or dotted(d) == "AES.block_size":
+            init[p] = absint.aint(BLOCK, BLOCK)
+    it = absint.Interp(f.node, init)
+    it.run()
+    rets = [s for s in statements(f.node) if isinstance(s, ast.Return)]
+    decided = 0
+    for r in rets:
+        parts = _flatten_add(_inl(f, r.value)) if r.value is not None else []
+        if len(parts) == 2 and dotted(parts[0]) == ps[0] and isinstance(parts[1], ast.BinOp) and isinstance(parts[1].op, ast.Mult):
+            fill = parts[1]
+            byts, cnt = (fill.left, fill.right) if isinstance(fill.left, ast.Constant) else (fill.right, fill.left)
+            if isinstance(byts, ast.Constant) and isinstance(byts.value, bytes):
+                decided += 1
+                if byts.value != b"A":
+                    ctx.ob("R5", "ABS", f, text, False, f"fill byte is {src(byts)} (b'A' required)", r)
+                    continue
+                v = it.ev(cnt, it.before.get(id(r), {}))
+                if v.kind == "int" and v.itv.within(1, BLOCK):
+                    ctx.ob("R5", "ABS", f, text, True, f"pad count {src(cnt)} has interval {v.itv} for len(data) >= 0, block size 16; fill byte b'A'", r)
+                else:
+                    ctx.undecided("R5", "ABS", f, text, f"pad count {src(cnt)} has interval {v.itv}; not evaluable concretely ({reason})", r)
+    if not decided:
+        ctx.undecided("R5", "ABS", f, text, f"body of pad() is not evaluable ({reason}) and no return of the form data + b'A' * n was found", f.node)
+
+
+def _r5_cipher_io(ctx, f, meth, pad_f):
+    """encrypt_data returns <AES cipher>.encrypt(pad(<data>)) unmodified; decrypt_data returns <AES cipher>.decrypt(<data>) unmodified."""
+    text = "return cipher.encrypt(pad(data))" if meth == "encrypt" else "return cipher.decrypt(data)"
+    rets = [s for s in statements(f.node) if isinstance(s, ast.Return)]
+    if not rets:
+        ctx.ob("R5", "AGREE", f, text, False, f"{f.qualname} returns nothing", f.node)
+        return
+    key_iv = set()
+    for c in fn_calls(f.node):
+        if _ext(ctx, f, c) in _AES_NEW:
+            for a in list(c.args) + [k.value for k in c.keywords]:
+                d = dotted(_inl(f, a))
+                if d:
+                    key_iv.add(d)
+    for r in rets:
+        v = _inl(f, r.value) if r.value is not None else None
+        inner = [x for x in ast.walk(v) if isinstance(x, ast.Call) and isinstance(x.func, ast.Attribute) and x.func.attr == meth] if v is not None else []
+        if not inner:
+            ctx.undecided("R5", "AGREE", f, text, f"returned value {src(v)} contains no <cipher>.{meth}(..) call", r)
+            continue
+        if not (isinstance(v, ast.Call) and v is inner[0]) and not (isinstance(_strip_bytes(v), ast.Call) and _strip_bytes(v) is inner[0]):
+            ctx.ob("R5", "AGREE", f, text, False, f"{f.qualname} post-processes the cipher output: returns {src(v)}", r)
+            continue
+        call = inner[0]
+        arg = call.args[0] if len(call.args) == 1 and not call.keywords else None
+        if arg is None:
+            ctx.undecided("R5", "AGREE", f, text, f"argument of {src(call)} not understood", r)
+            continue
+        if meth == "encrypt":
+            if not _is_pkg_call(ctx, f, arg, "c2.pad"):
+                if dotted(_strip_bytes(arg)) in params(f.node) or isinstance(arg, ast.Constant):
+                    ctx.ob("R5", "AGREE", f, text, False, f"encrypt_data encrypts {src(arg)} as it is, not pad(<data>)", r)
+                else:
+                    ctx.undecided("R5", "AGREE", f, text, f"encrypt_data encrypts {src(arg)}: not a call of pad(), padding not located", r)
+                continue
+            b = bind_args(arg, pad_f.node)
+            pp = params(pad_f.node)
+            d0 = dotted(_strip_bytes(b.get(pp[0]))) if b.get(pp[0]) is not None else None
+            data_ok = d0 in params(f.node) and d0 not in key_iv and not assignments_to(f.node, d0)
+            bs_ok = all(_block_ok(b.get(p)) for p in pp[1:])
+            ctx.ob("R5", "AGREE", f, text, data_ok and bs_ok,
+                   f"encrypts pad({d0}) (an unmodified data parameter={data_ok}) with block size 16={bs_ok}", r)
         else:
-            d_ok = False
-            break
-    ctx.ob("R5", "AGREE", dec, "return cipher.decrypt(data)", d_ok, "decrypt_data returns the cipher output unmodified (no unpadding)" if d_ok else "decrypt_data post-processes or does not return cipher.decrypt(data)", dec.node)
+            d0 = dotted(_strip_bytes(arg))
+            data_ok = d0 in params(f.node) and d0 not in key_iv and not assignments_to(f.node, d0)
+            ctx.ob("R5", "AGREE", f, text, data_ok, f"returns the cipher output for {src(arg)} unmodified (no unpadding); argument is an unmodified data parameter={data_ok}", r)
+
+
+def _block_ok(e):
+    if e is None:
+        return False
+    try:
+        return _cev(e, {}) == BLOCK
+    except _Unsupported:
+        return False
 
 
 # ---------------------------------------------------------------------------- R6
+_AES_NEW = ("AES.new", "Crypto.Cipher.AES.new", "Cryptodome.Cipher.AES.new")
+_MODE_CBC = ("AES.MODE_CBC", "Crypto.Cipher.AES.MODE_CBC", "Cryptodome.Cipher.AES.MODE_CBC")
+
+
+def _aes_roles(ctx, f, c):
+    """(key, mode, iv) argument expressions (inlined) of an AES.new call."""
+    key = c.args[0] if c.args else kwarg(c, "key")
+    mode = c.args[1] if len(c.args) > 1 else kwarg(c, "mode")
+    iv = kwarg(c, "iv") or kwarg(c, "IV") or (c.args[2] if len(c.args) > 2 else None)
+    return _inl(f, key), _inl(f, mode), _inl(f, iv)
+
+
 def r6(ctx):
-    shapes = {}
+    roles = {}
     for fq in ("c2.encrypt_data", "c2.decrypt_data"):
         f = ctx.repo.func(fq)
-        news = [c for c in fn_calls(f.node) if dotted(c.func) == "AES.new"]
-        if len(news) != 1:
-            ctx.ob("R6", "AGREE", f, "AES.new", False, f"{len(news)} AES.new calls", f.node)
+        news = [c for c in fn_calls(f.node) if _ext(ctx, f, c) in _AES_NEW]
+        if not news:
+            ctx.undecided("R6", "AGREE", f, "AES.new(key, MODE_CBC, iv)", f"no AES.new call found in {f.qualname}: cipher construction not located", f.node)
             continue
-        c = news[0]
-        key = c.args[0] if c.args else kwarg(c, "key")
-        mode = c.args[1] if len(c.args) > 1 else kwarg(c, "mode")
-        iv = kwarg(c, "iv") or kwarg(c, "IV") or (c.args[2] if len(c.args) > 2 else None)
-        shapes[fq] = (dotted(key), dotted(mode), dotted(iv))
-        ctx.ob("R6", "AGREE", f, src(c), shapes[fq] == ("aes_key", "AES.MODE_CBC", "iv"), f"cipher built from (key,mode,iv)={shapes[fq]}; required (aes_key, AES.MODE_CBC, iv)", c)
-        # None key -> ValueError before the cipher is built
         cfg = ctx.cfg(f)
-        spec = specialise(cfg, {"aes_key is None": True, "aes_key": False})
         fv = FuncView.of(f.node)
-        reach = spec.reaches(ENTRY, cfg.node(fv.stmt_of(c)))
-        ctx.ob("R6", "DOM", f, "aes_key is None", not reach, "AES.new unreachable when aes_key is None" if not reach else "AES.new reachable with aes_key None", c)
-        for r in cfg.raise_stmts():
-            if spec.reaches(ENTRY, cfg.node(r)):
-                ctx.ob("R6", "EXIT", f, src(r), raise_class(r) == "ValueError", f"raises {raise_class(r)} without key (documented ValueError)", r)
-
+        ps = params(f.node)
+        for c in news:
+            key, mode, iv = _aes_roles(ctx, f, c)
+            kd, ivd = dotted(_strip_bytes(key)) if key is not None else None, dotted(_strip_bytes(iv)) if iv is not None else None
+            mode_ok = mode is not None and (dotted(mode) in _MODE_CBC or _cval(mode) == 2)
+            key_ok = kd in ps and not assignments_to(f.node, kd)
+            iv_ok = ivd in ps and ivd != kd and not assignments_to(f.node, ivd)
+            ctx.ob("R6", "AGREE", f, "AES.new(key, MODE_CBC, iv)", key_ok and mode_ok and iv_ok,
+                   f"cipher built from (key, mode, iv)=({src(key)}, {src(mode)}, {src(iv)}); required (<key parameter>, AES.MODE_CBC, <iv parameter>)", c)
+            if key_ok and iv_ok:
+                roles[fq] = (kd, ivd)
+            if not key_ok:
+                continue
+            # None key -> ValueError before the cipher is built
+            spec = _spec(ctx, f, {f"{kd} is None": True, kd: False})
+            reach = spec.reaches(ENTRY, cfg.node(fv.stmt_of(c)))
+            ctx.ob("R6", "DOM", f, "no cipher without key", not reach, "AES.new unreachable when the key is None" if not reach else "AES.new reachable with key None", c)
+            for r in cfg.raise_stmts():
+                if spec.reaches(ENTRY, cfg.node(r)):
+                    ctx.ob("R6", "EXIT", f, "raise without key", raise_class(r) == "ValueError", f"raises {raise_class(r)} without key (documented ValueError)", r)
 
     # the packet-level functions hand their own key and IV to the data-level ones ("under the configured IV")
     for caller, callee in (("c2.decrypt_packet", "c2.decrypt_data"), ("c2.encrypt_packet", "c2.encrypt_data")):
         f = ctx.repo.func(caller)
+        short = callee.split(".")[1]
+        text = f"{short}(...) forwards key and IV"
         cs = calls_to(ctx, f, target_fq=callee)
         if not cs:
-            ctx.ob("R6", "AGREE", f, f"{callee.split('.')[1]}(...)", False, f"{caller} no longer calls {callee}", f.node)
+            ctx.undecided("R6", "AGREE", f, text, f"{caller} does not call {callee}: forwarding not located", f.node)
+            continue
+        kp, ivp = roles.get(callee, ("aes_key", "iv"))
         for c in cs:
             b = bind_args(c, ctx.repo.func(callee).node)
-            got = {p: dotted(b.get(p)) for p in ("aes_key", "iv")}
+            got = {}
+            for role, p in (("key", kp), ("iv", ivp)):
+                a = b.get(p)
+                got[role] = dotted(_strip_bytes(_inl(f, a))) if a is not None else None
             rebound = [p for p in ("aes_key", "iv") if assignments_to(f.node, p)]
-            ok = got == {"aes_key": "aes_key", "iv": "iv"} and not rebound
-            ctx.ob("R6", "AGREE", f, src(c) + " forwards key and IV", ok,
-                   f"callee parameters bound to {got}" + (f"; {rebound} rebound in {caller}" if rebound else "") + " (required: the caller's own aes_key and iv)", c)
+            ok = got == {"key": "aes_key", "iv": "iv"} and not rebound
+            ctx.ob("R6", "AGREE", f, text, ok,
+                   f"cipher key/iv parameters of {short} bound to {got}" + (f"; {rebound} rebound in {caller}" if rebound else "")
+                   + " (required: the caller's own aes_key and iv)", c)
 
 
 # ---------------------------------------------------------------------------- R7
-def r7(ctx):
-    f = ctx.repo.func("c2.EncryptedPacket.dumps")
-    rets = [s for s in statements(f.node) if isinstance(s, ast.Return)]
-    ok = False
-    detail = "dumps() shape not recognised"
-    if len(rets) == 1 and isinstance(rets[0].value, ast.BinOp) and isinstance(rets[0].value.op, ast.Add):
-        l, r = rets[0].value.left, rets[0].value.right
-        if isinstance(l, ast.Call) and l.args:
-            cal = ctx.rs.resolve_call(f, l)
-            be4 = cal.kind == "func" and cal.func.fq == "utils.pack" and _c(cal.bound.get("size")) == 4 and _c(cal.bound.get("byteorder")) == "big"
-            la = l.args[0]
-            len_of = la.args[0] if isinstance(la, ast.Call) and dotted(la.func) == "len" and la.args else None
-            pay = origin(f.node, r)
-            pay_ok = isinstance(pay, ast.BinOp) and isinstance(pay.op, ast.Add) and dotted(pay.left) == "self.ciphertext" and dotted(pay.right) == "self.signature"
-            same = len_of is not None and src(origin(f.node, len_of)) == src(pay)
-            ok = be4 and pay_ok and same
-            detail = f"prefix is 4-byte big-endian pack={be4}; payload is ciphertext+signature={pay_ok}; prefix counts that payload={same}"
-    ctx.ob("R7", "AGREE", f, "return " + (src(rets[0].value) if rets else "?"), ok, detail, f.node)
-    # reader
-    g = ctx.repo.func("c2.ClientC2Data.iter_encrypted_packets")
-    cd = ctx.cdefs("c_c2").get("c2struct")
-    size_calls = []
-    for c in fn_calls(g.node):
-        cal = ctx.rs.resolve_call(g, c)
-        if cal.kind == "struct" and cal.struct and cal.struct[2] in ("uint32",):
-            size_calls.append((c, cal))
-    end_ok = cd is not None and cd.endian == ">"
-    ctx.ob("R7", "AGREE", g, "size = c2struct.uint32(fobj)", bool(size_calls) and end_ok,
-           f"length prefix parsed as uint32 of c2struct (endian {cd.endian if cd else '?'}; big-endian required), sites={len(size_calls)}", g.node)
-    # loop over remainder
-    loops = [s for s in statements(g.node) if isinstance(s, ast.While)]
-    l_ok = False
-    detail = "no while loop over remaining data"
-    for w in loops:
-        d = dotted(w.test)
-        if d is None:
-            continue
-        rebinds = [v for st, v in assignments_to(g.node, d) if v is not None and any(st is x for x in ast.walk(w))]
-        rem = [v for v in rebinds if isinstance(v, ast.Call) and isinstance(v.func, ast.Attribute) and v.func.attr == "read" and not v.args and not v.keywords]
-        # the stream is built from the loop variable each round
-        built = any(isinstance(c, ast.Call) and dotted(c.func) == "io.BytesIO" and c.args and dotted(c.args[0]) == d for c in ast.walk(w))
-        l_ok = bool(rem) and built and len(rebinds) == len(rem)
-        detail = f"while {d}: stream rebuilt from {d}={built}; {d} rebound to the unread remainder={bool(rem)}"
-    ctx.ob("R7", "LOOP", g, "while data", l_ok, detail, g.node)
+def _call_binding(ctx, f, call, cal):
+    """Parameter binding of a call to a package function reached through functools.partial aliases:
+    defaults < partial keywords < explicit arguments."""
+    fn = cal.func.node
+    b = bind_args(call, fn)
+    explicit = set(params(fn)[: len(call.args)]) | {k.arg for k in call.keywords if k.arg}
+    for k, v in (cal.bound or {}).items():
+        if k not in explicit:
+            b[k] = v
+    return b
 
 
-def _c(node):
-    try:
-        return const_eval(node) if node is not None else None
-    except NotConst:
+def _order_name(v):
+    v = _cval(v) if v is not None else None
+    return v if isinstance(v, str) else None
+
+
+def _pack_info(ctx, f, e):
+    """An int -> bytes encoding call: dict(value, size, order, signed) or None if e is not recognised as one."""
+    if not isinstance(e, ast.Call):
         return None
+    cal = _resolved(ctx, f, e)
+    if cal is not None and cal.kind == "func" and cal.func is not None and cal.func.fq == "utils.pack":
+        b = _call_binding(ctx, f, e, cal)
+        return dict(value=b.get("n"), size=_cval(b.get("size")), order=_order_name(b.get("byteorder")), signed=bool(_cval(b.get("signed"))))
+    if isinstance(e.func, ast.Attribute) and e.func.attr == "to_bytes":
+        args = list(e.args)
+        value = e.func.value
+        if dotted(value) == "int" and args:
+            value, args = args[0], args[1:]
+        size = args[0] if args else kwarg(e, "length")
+        order = args[1] if len(args) > 1 else kwarg(e, "byteorder")
+        signed = kwarg(e, "signed")
+        return dict(value=value, size=_cval(size), order=_order_name(order) if order is not None else "big",
+                    signed=bool(_cval(signed)) if signed is not None else False)
+    if _ext(ctx, f, e) == "struct.pack" and len(e.args) == 2 and isinstance(_cval(e.args[0]), str):
+        fmt = _cval(e.args[0])
+        table = {">I": (4, "big", False), "!I": (4, "big", False), "<I": (4, "little", False), ">i": (4, "big", True), "!i": (4, "big", True),
+                 "<i": (4, "little", True), ">H": (2, "big", False), "!H": (2, "big", False), ">Q": (8, "big", False), "!Q": (8, "big", False)}
+        if fmt in table:
+            s, o, sg = table[fmt]
+            return dict(value=e.args[1], size=s, order=o, signed=sg)
+    return None
+
+
+def _bytes_source(e, f=None):
+    """Where the bytes of a decoded integer come from: ('stream', S, n, consuming call) for S.read(n);
+    ('buffer', B, n, None) for B[:n] / B[0:n]; ('buffer', B, None, None) for a bare name."""
+    e = _strip_bytes(e)
+    if f is not None and isinstance(e, ast.Name):
+        o = _strip_bytes(origin(f.node, e))
+        if (isinstance(o, ast.Call) and isinstance(o.func, ast.Attribute) and o.func.attr == "read") or (isinstance(o, ast.Subscript) and isinstance(o.slice, ast.Slice)):
+            e = o
+    if isinstance(e, ast.Call) and isinstance(e.func, ast.Attribute) and e.func.attr == "read" and dotted(e.func.value) and len(e.args) == 1:
+        return ("stream", dotted(e.func.value), _cval(e.args[0]), e)
+    if isinstance(e, ast.Subscript) and isinstance(e.slice, ast.Slice) and dotted(e.value) and e.slice.step is None \
+            and (e.slice.lower is None or is_const(e.slice.lower, 0)) and e.slice.upper is not None:
+        return ("buffer", dotted(e.value), _cval(e.slice.upper), None)
+    if dotted(e):
+        return ("buffer", dotted(e), None, None)
+    return None
+
+
+def _size_src(ctx, f, e):
+    """A length-prefix decoding expression (inlined): dict(kind 'stream'|'buffer', name, width, order, signed, consume) or None."""
+    if isinstance(e, ast.Call) and dotted(e.func) == "int" and len(e.args) == 1:
+        e = e.args[0]
+    if isinstance(e, ast.Subscript) and not isinstance(e.slice, ast.Slice) and _cval(e.slice) == 0 and isinstance(e.value, ast.Call) \
+            and _ext(ctx, f, e.value) in ("struct.unpack", "struct.unpack_from") and len(e.value.args) == 2:
+        fmt = _cval(e.value.args[0])
+        table = {">I": (4, "big", False), "!I": (4, "big", False), "<I": (4, "little", False), ">i": (4, "big", True), "<i": (4, "little", True)}
+        bs = _bytes_source(e.value.args[1], f)
+        if fmt in table and bs is not None:
+            w, o, sg = table[fmt]
+            if bs[2] is not None and bs[2] != w:
+                return dict(kind=bs[0], name=bs[1], width=bs[2], order=o, signed=sg, consume=bs[3])
+            return dict(kind=bs[0], name=bs[1], width=w, order=o, signed=sg, consume=bs[3])
+        return None
+    if not isinstance(e, ast.Call):
+        return None
+    cal = _resolved(ctx, f, e)
+    if cal is not None and cal.kind == "struct" and cal.struct and len(e.args) == 1 and dotted(e.args[0]):
+        mod, var, ctype = cal.struct
+        widths = {"uint32": (4, False), "int32": (4, True), "uint16": (2, False), "int16": (2, True), "uint64": (8, False), "int64": (8, True),
+                  "uint8": (1, False), "int8": (1, True)}
+        try:
+            cd = ctx.cdefs(mod).get(var)
+        except Exception:
+            cd = None
+        if ctype not in widths or cd is None:
+            return None
+        w, sg = widths[ctype]
+        return dict(kind="stream", name=dotted(e.args[0]), width=w, order="big" if cd.endian == ">" else "little", signed=sg, consume=e)
+    if cal is not None and cal.kind == "func" and cal.func is not None and cal.func.fq == "utils.unpack":
+        b = _call_binding(ctx, f, e, cal)
+        bs = _bytes_source(b.get("data"), f) if b.get("data") is not None else None
+        if bs is None:
+            return None
+        size = _cval(b.get("size"))
+        width = size if bs[2] is None else (bs[2] if size is None else min(size, bs[2]))
+        return dict(kind=bs[0], name=bs[1], width=width, order=_order_name(b.get("byteorder")), signed=bool(_cval(b.get("signed"))), consume=bs[3])
+    if dotted(e.func) == "int.from_bytes" and e.args:
+        bs = _bytes_source(e.args[0], f)
+        order = e.args[1] if len(e.args) > 1 else kwarg(e, "byteorder")
+        signed = kwarg(e, "signed")
+        if bs is None:
+            return None
+        return dict(kind=bs[0], name=bs[1], width=bs[2], order=_order_name(order) if order is not None else "big",
+                    signed=bool(_cval(signed)) if signed is not None else False, consume=bs[3])
+    return None
+
+
+def _orig_call(f, node):
+    """The call of the function body with the same text as (inlined copy) `node`, if unique."""
+    hits = [c for c in fn_calls(f.node) if src(c) == src(node)]
+    return hits[0] if len(hits) == 1 else None
+
+
+def _stream_events(f, s):
+    """Calls that move or consume stream s: s.read/seek/... and calls that are handed s itself."""
+    out = []
+    for c in fn_calls(f.node):
+        if isinstance(c.func, ast.Attribute) and dotted(c.func.value) == s and c.func.attr in _CONSUMING:
+            out.append(c)
+        elif any(dotted(a) == s for a in list(c.args) + [k.value for k in c.keywords]) and dotted(c.func) not in ("len", "bool", "id", "type", "isinstance", "print", "repr"):
+            out.append(c)
+    return out
+
+
+def _same_buffer(f, a, b):
+    """Do names a and b denote the same, never re-bound object (one is a plain single-definition alias of the other)?"""
+    if a == b:
+        return True
+    for x, y in ((a, b), (b, a)):
+        if "." in x:
+            continue
+        defs = assignments_to(f.node, x)
+        if len(defs) == 1 and defs[0][1] is not None and dotted(defs[0][1]) == y and x not in params(f.node):
+            if "." in y or (len(assignments_to(f.node, y)) <= 1):
+                return True
+    return False
+
+
+def _r7_writer(ctx):
+    f = ctx.repo.func("c2.EncryptedPacket.dumps")
+    text = "dumps() == be32(len(ciphertext + signature)) + ciphertext + signature"
+    rets = [s for s in statements(f.node) if isinstance(s, ast.Return)]
+    if not rets:
+        ctx.ob("R7", "AGREE", f, text, False, "dumps() returns nothing", f.node)
+    for r in rets:
+        parts = _flatten_add(_inl(f, r.value)) if r.value is not None else []
+        pk = _pack_info(ctx, f, parts[0]) if parts else None
+        if len(parts) < 2 or pk is None:
+            ctx.undecided("R7", "AGREE", f, text, f"returned value {src(r.value)} is not <packed length> + <payload>", r)
+            continue
+        be4 = pk["size"] == 4 and pk["order"] == "big" and not pk["signed"]
+        pay = [src(_strip_bytes(p)) for p in parts[1:]]
+        pay_ok = pay == ["self.ciphertext", "self.signature"]
+        val = pk["value"]
+        same = False
+        if val is not None:
+            val = _inl(f, val)
+            if isinstance(val, ast.Call) and dotted(val.func) == "len" and len(val.args) == 1:
+                same = [src(_strip_bytes(p)) for p in _flatten_add(val.args[0])] == pay
+            else:
+                lens = []
+                for t in _flatten_add(val):
+                    lens.append(src(t.args[0]) if isinstance(t, ast.Call) and dotted(t.func) == "len" and len(t.args) == 1 else None)
+                same = None not in lens and sorted(lens) == sorted(pay)
+        ok = be4 and pay_ok and same
+        ctx.ob("R7", "AGREE", f, text, ok,
+               f"prefix is a 4-byte big-endian unsigned pack={be4} (size={pk['size']}, byteorder={pk['order']}, signed={pk['signed']}); "
+               f"payload is ciphertext+signature={pay_ok}; prefix counts that payload={same}", r)
+
+
+def _r7_order(ctx, f, m, text="read order"):
+    """ciphertext bytes are taken before the signature bytes from the same stream, nothing else in between."""
+    if m["mode"] != "read":
+        return
+    o = _before(ctx, f, m["ct"], m["sig"])
+    if o is None:
+        ctx.undecided("R7", "AGREE", f, text, "ciphertext read and signature read are not ordered by dominance", m["ctor"])
+        return
+    extra = []
+    if o:
+        for ev in _stream_events(f, m["stream"]):
+            if ev is m["ct"] or ev is m["sig"]:
+                continue
+            if _before(ctx, f, m["ct"], ev) is True and _before(ctx, f, ev, m["sig"]) is True:
+                extra.append(src(ev))
+    ctx.ob("R7", "AGREE", f, text, o and not extra,
+           "ciphertext is read before the signature" + (f", but {extra} moves the stream in between" if extra else "") if o else
+           "the signature is read from the stream before the ciphertext", m["ctor"])
+
+
+def _r7_client(ctx, g):
+    ptext = "length prefix: big-endian uint32 read from the packet stream"
+    ltext = "loop over all framed packets"
+    fv = FuncView.of(g.node)
+    cfg = ctx.cfg(g)
+    pk = [m for m in _reader_packets(ctx, g)]
+    located = [m for m in pk if m["mode"]]
+    if not located:
+        ctx.undecided("R7", "AGREE", g, ptext, "packet fields not located: " + ("; ".join(m["why"] for m in pk) or "no EncryptedPacket built"), g.node)
+        ctx.undecided("R7", "LOOP", g, ltext, "packet fields not located", g.node)
+        return
+    for m in located:
+        _r7_order(ctx, g, m)
+        loop = fv.enclosing(m["ctor"], (ast.While, ast.For, ast.AsyncFor))
+        # ---------------- the length prefix
+        size = None
+        hdr = None  # slice mode: width of the header skipped before the packet bytes
+        if m["mode"] == "read":
+            carrier = m["stream"]
+            e = m["ct"].args[0]
+            for _lvl in range(6):
+                sp = _split_minus_const(e)
+                size = _size_src(ctx, g, sp[0]) if sp else None
+                if size is not None:
+                    break
+                e = _inl_once(g, e, keep=[carrier.split(".")[0]])
+        else:
+            base = m["base_orig"]
+            carrier = None
+            if isinstance(base, ast.Subscript) and isinstance(base.slice, ast.Slice) and dotted(base.value) and base.slice.step is None \
+                    and base.slice.lower is not None and base.slice.upper is not None:
+                carrier = dotted(base.value)
+                hdr = _cval(_inl(g, base.slice.lower))
+                m["upper"] = base.slice.upper
+                e = ast.BinOp(left=base.slice.upper, op=ast.Sub(), right=base.slice.lower)
+                for _lvl in range(6):
+                    diff = absint.sympoly(e)
+                    for x in _dfs(e):
+                        if isinstance(x, (ast.Call, ast.Subscript)):
+                            sx = _size_src(ctx, g, x)
+                            if sx is not None and diff is not None and diff == absint.sympoly(x):
+                                size = sx
+                                break
+                    if size is not None:
+                        break
+                    e = _inl_once(g, e, keep=[carrier.split(".")[0]])
+        if size is None or carrier is None:
+            ctx.undecided("R7", "AGREE", g, ptext, "the expression that decodes the frame length was not recognised", m["ctor"])
+        else:
+            fmt_ok = size["width"] == 4 and size["order"] == "big" and not size["signed"]
+            same = _same_buffer(g, size["name"], carrier)
+            detail = (f"frame length decoded as {size['width']}-byte {size['order']}-endian {'signed' if size['signed'] else 'unsigned'} integer from "
+                      f"{size['kind']} `{size['name']}`; packet bytes are taken from `{carrier}`")
+            if size["width"] is None or size["order"] is None:
+                ctx.undecided("R7", "AGREE", g, ptext, detail + "; width or byte order of the decoding could not be determined", m["ctor"])
+            elif fmt_ok and same and m["mode"] == "slice" and hdr != 4:
+                ctx.ob("R7", "AGREE", g, ptext, False, detail + f"; packet bytes start at offset {hdr}, the header is 4 bytes", m["ctor"])
+            elif fmt_ok and same and m["mode"] == "read" and size["kind"] != "stream":
+                ctx.undecided("R7", "AGREE", g, ptext, detail + "; mixing buffer decoding and stream reads is not understood", m["ctor"])
+            else:
+                ctx.ob("R7", "AGREE", g, ptext, fmt_ok and same, detail + ("" if same else " - a different object: the length of every frame must come "
+                       "from the position the frame is read from"), m["ctor"])
+            if fmt_ok and same and m["mode"] == "read" and size["kind"] == "stream" and size["consume"] is not None:
+                oc = _orig_call(g, size["consume"])
+                o = _before(ctx, g, oc, m["ct"]) if oc is not None else None
+                if o is None:
+                    ctx.undecided("R7", "AGREE", g, "length prefix read first", "order of the length read and the ciphertext read not established", m["ctor"])
+                else:
+                    extra = [src(ev) for ev in _stream_events(g, carrier) if ev is not oc and ev is not m["ct"]
+                             and _before(ctx, g, oc, ev) is True and _before(ctx, g, ev, m["ct"]) is True]
+                    ctx.ob("R7", "AGREE", g, "length prefix read first", o and not extra,
+                           "the length prefix is read before the ciphertext" + (f", but {extra} moves the stream in between" if extra else "") if o
+                           else "the ciphertext is read before the length prefix", m["ctor"])
+        # ---------------- the loop
+        if loop is None:
+            if any(isinstance(s, (ast.While, ast.For, ast.AsyncFor)) for s in statements(g.node)):
+                ctx.undecided("R7", "LOOP", g, ltext, "the packet is not built inside the loop of the reader", m["ctor"])
+            else:
+                ctx.ob("R7", "LOOP", g, ltext, False, "the client reader builds one packet and has no loop: only the first frame is returned", m["ctor"])
+            continue
+        if not isinstance(loop, ast.While):
+            ctx.undecided("R7", "LOOP", g, ltext, "for-loop framing is not understood", loop)
+            continue
+        _r7_loop(ctx, g, m, loop, carrier, ltext)
+
+
+def _in(loop, st):
+    return any(x is st for x in ast.walk(loop))
+
+
+def _r7_loop(ctx, g, m, loop, carrier, ltext):
+    test = _strip_bool(_inl(g, loop.test))
+    if carrier is None:
+        ctx.undecided("R7", "LOOP", g, ltext, "the object the packet bytes are taken from was not located", loop)
+        return
+    defs = assignments_to(g.node, carrier)
+    inside = [(st, v) for st, v in defs if _in(loop, st)]
+    if m["mode"] == "read":
+        if inside:
+            # (A) the stream is re-created each round from the unread remainder of the previous one
+            srcs = set()
+            for st, v in inside:
+                v = _inl(g, v) if v is not None else None
+                if isinstance(v, ast.Call) and (_ext(ctx, g, v) or "").split(".")[-1] == "BytesIO" and len(v.args) == 1 and dotted(v.args[0]):
+                    srcs.add(dotted(v.args[0]))
+                else:
+                    srcs.add(None)
+            if len(srcs) != 1 or None in srcs:
+                ctx.undecided("R7", "LOOP", g, ltext, f"stream `{carrier}` is rebound inside the loop, not as io.BytesIO(<remaining data>)", loop)
+                return
+            d = srcs.pop()
+            if not _tests_truth_of(test, d):
+                ctx.undecided("R7", "LOOP", g, ltext, f"loop condition {src(loop.test)} is not the emptiness test of `{d}`", loop)
+                return
+            rebinds = [(st, v) for st, v in assignments_to(g.node, d) if _in(loop, st)]
+            if not rebinds:
+                ctx.ob("R7", "LOOP", g, ltext, False, f"`{d}` is never advanced inside the loop", loop)
+                return
+            bad = []
+            for st, v in rebinds:
+                v = origin(g.node, v) if v is not None else None
+                if v is None or not _is_rest_read(v, carrier):
+                    if v is not None and not (_mentions(_inl(g, v, keep=[carrier, d]), carrier) or _mentions(_inl(g, v, keep=[carrier, d]), d)):
+                        bad.append(f"{src(st)} (does not depend on the data that is left)")
+                        continue
+                    ctx.undecided("R7", "LOOP", g, ltext, f"`{d}` is advanced by {src(st)}, not by reading the rest of the stream: not understood", loop)
+                    return
+                if _before(ctx, g, m["sig"], v) is not True:
+                    bad.append(f"{src(st)} (not after the signature read)")
+            ctx.ob("R7", "LOOP", g, ltext, not bad,
+                   f"while `{d}`: stream rebuilt from `{d}`; `{d}` rebound to the unread remainder after the signature read" if not bad else
+                   "remaining data wrongly advanced: " + "; ".join(bad), loop)
+            return
+        # (B) one stream walked to its end
+        if len(defs) != 1 or defs[0][1] is None:
+            ctx.undecided("R7", "LOOP", g, ltext, f"stream `{carrier}` has no single definition before the loop", loop)
+            return
+        sdef = origin(g.node, defs[0][1])
+        wrapped = dotted(sdef.args[0]) if isinstance(sdef, ast.Call) and (_ext(ctx, g, sdef) or "").split(".")[-1] == "BytesIO" and len(sdef.args) == 1 else None
+        verdict = None
+        raw = loop.test
+        while isinstance(raw, ast.Name) and len(assignments_to(g.node, raw.id)) == 1 and assignments_to(g.node, raw.id)[0][1] is not None:
+            raw = assignments_to(g.node, raw.id)[0][1]
+        for l0, op, r in compare_parts(_strip_bool(raw)):
+            l = _inl(g, l0, keep=[carrier])
+            if isinstance(l, ast.Call) and isinstance(l.func, ast.Attribute) and l.func.attr == "tell" and dotted(l.func.value) == carrier:
+                end_ok = _is_end_of(ctx, g, r, carrier, wrapped, loop)
+                if end_ok is None:
+                    continue
+                verdict = (isinstance(op, (ast.Lt, ast.NotEq)) and end_ok, f"{src(l)} {type(op).__name__} {src(r)}")
+                break
+        if verdict is None:
+            ctx.undecided("R7", "LOOP", g, ltext, f"loop condition {src(loop.test)} is not recognised as `position of the stream < its end`", loop)
+            return
+        extra = [src(ev) for ev in _stream_events(g, carrier) if _in(loop, FuncView.of(g.node).stmt_of(ev)) and ev is not m["ct"] and ev is not m["sig"]
+                 and _before(ctx, g, m["sig"], ev) is True]
+        ctx.ob("R7", "LOOP", g, ltext, verdict[0] and not extra,
+               f"one stream walked while {verdict[1]} (must be: position < total length)" + (f"; {extra} moves the stream after the signature" if extra else ""), loop)
+        return
+    # (C) slices of a buffer that is cut down each round
+    if not inside:
+        ctx.ob("R7", "LOOP", g, ltext, False, f"buffer `{carrier}` is never advanced inside the loop", loop)
+        return
+    if not _tests_truth_of(test, carrier):
+        ctx.undecided("R7", "LOOP", g, ltext, f"loop condition {src(loop.test)} is not the emptiness test of `{carrier}`", loop)
+        return
+    upper = _inl(g, m["upper"]) if m.get("upper") is not None else None
+    if upper is None:
+        ctx.undecided("R7", "LOOP", g, ltext, "end of the packet inside the buffer not located", loop)
+        return
+    bad = []
+    for st, v in inside:
+        if isinstance(v, ast.Subscript) and isinstance(v.slice, ast.Slice) and dotted(v.value) == carrier and v.slice.upper is None and v.slice.step is None \
+                and v.slice.lower is not None:
+            a, b = absint.sympoly(_inl(g, v.slice.lower)), absint.sympoly(upper)
+            if a is None or b is None:
+                ctx.undecided("R7", "LOOP", g, ltext, f"advance {src(st)} not comparable with the end of the packet", loop)
+                return
+            if a != b:
+                bad.append(f"{src(st)} (the packet ends at {src(upper)})")
+        else:
+            ctx.undecided("R7", "LOOP", g, ltext, f"buffer `{carrier}` is rebound by {src(st)}: not a tail slice", loop)
+            return
+    ctx.ob("R7", "LOOP", g, ltext, not bad, f"while `{carrier}`: `{carrier}` is cut to what follows the packet each round" if not bad else
+           "buffer wrongly advanced: " + "; ".join(bad), loop)
+
+
+def _is_rest_read(v, stream):
+    """<stream>.read() / .read(-1) / .read(None): everything that has not been read yet."""
+    if not (isinstance(v, ast.Call) and isinstance(v.func, ast.Attribute) and v.func.attr == "read" and dotted(v.func.value) == stream and not v.keywords):
+        return False
+    if not v.args:
+        return True
+    return len(v.args) == 1 and isinstance(v.args[0], ast.Constant) and (v.args[0].value is None or v.args[0].value == -1) or (
+        len(v.args) == 1 and _cval(v.args[0]) == -1)
+
+
+def _tests_truth_of(test, name):
+    """Is `test` the non-emptiness test of `name`:  name / len(name) / len(name) > 0 / name != b'' ..."""
+    if dotted(test) == name:
+        return True
+    if isinstance(test, ast.Call) and dotted(test.func) == "len" and len(test.args) == 1 and dotted(test.args[0]) == name:
+        return True
+    for l, op, r in compare_parts(test):
+        if isinstance(l, ast.Call) and dotted(l.func) == "len" and len(l.args) == 1 and dotted(l.args[0]) == name:
+            if (isinstance(op, (ast.Gt, ast.NotEq)) and _cval(r) == 0) or (isinstance(op, ast.GtE) and _cval(r) == 1):
+                return True
+        if dotted(l) == name and isinstance(op, ast.NotEq) and _cval(r) in (b"", None) and isinstance(r, ast.Constant) and r.value == b"":
+            return True
+    return False
+
+
+def _is_end_of(ctx, g, e, stream, wrapped, loop):
+    """Is e the total length of the stream? True / False (located, something else) / None (not understood)."""
+    o = origin(g.node, e)
+    i = _inl(g, e, keep=[stream])
+    for cand in (o, i):
+        if isinstance(cand, ast.Call) and dotted(cand.func) == "len" and len(cand.args) == 1 and dotted(cand.args[0]) is not None:
+            i = cand
+            break
+    if isinstance(i, ast.Call) and dotted(i.func) == "len" and len(i.args) == 1:
+        a = i.args[0]
+        if wrapped is not None and dotted(a) is not None:
+            return _same_buffer(g, dotted(a), wrapped)
+        if isinstance(a, ast.Call) and isinstance(a.func, ast.Attribute) and a.func.attr in ("getvalue", "getbuffer") and dotted(a.func.value) == stream:
+            return True
+        return None
+    if isinstance(i, ast.Attribute) and i.attr == "nbytes" and isinstance(i.value, ast.Call) and isinstance(i.value.func, ast.Attribute) \
+            and i.value.func.attr == "getbuffer" and dotted(i.value.func.value) == stream:
+        return True
+    if isinstance(o, ast.Call) and isinstance(o.func, ast.Attribute) and o.func.attr == "seek" and dotted(o.func.value) == stream and len(o.args) == 2:
+        whence = o.args[1]
+        at_end = _cval(o.args[0]) == 0 and (_cval(whence) == 2 or (dotted(whence) or "").endswith("SEEK_END"))
+        if not at_end:
+            return False
+        # the stream must be rewound to its start between measuring and the loop
+        fv = FuncView.of(g.node)
+        cfg = ctx.cfg(g)
+        for ev in _stream_events(g, stream):
+            if isinstance(ev.func, ast.Attribute) and ev.func.attr == "seek" and ev is not o and (
+                    (len(ev.args) == 1 and _cval(ev.args[0]) == 0) or (len(ev.args) == 2 and _cval(ev.args[0]) == 0 and (_cval(ev.args[1]) == 0 or (dotted(ev.args[1]) or "").endswith("SEEK_SET")))):
+                if _before(ctx, g, o, ev) is True and cfg.dominates(cfg.node(fv.stmt_of(ev)), cfg.node(loop)) and not _in(loop, fv.stmt_of(ev)):
+                    return True
+        return False
+    return None
+
+
+def r7(ctx):
+    _r7_writer(ctx)
+    s = ctx.repo.func("c2.ServerC2Data.iter_encrypted_packets")
+    for m in _reader_packets(ctx, s):
+        if m["mode"]:
+            _r7_order(ctx, s, m)
+    _r7_client(ctx, ctx.repo.func("c2.ClientC2Data.iter_encrypted_packets"))
 
 
 # ---------------------------------------------------------------------------- R8
@@ -443,26 +1505,51 @@ def r8(ctx, dp):
     f = ctx.repo.func("c2.C2Http.iter_recover_http")
     calls = calls_to(ctx, f, target_fq="c2.decrypt_packet")
     if not calls:
-        ctx.ob("R8", "AGREE", f, "decrypt_packet(...)", False, "iter_recover_http no longer calls decrypt_packet", f.node)
+        ctx.undecided("R8", "AGREE", f, "decrypt_packet(verify=self.verify_hmac, <session keys>)", "iter_recover_http does not call decrypt_packet directly", f.node)
         return
-    fields = []
-    for st in ctx.repo.cls("c2.BeaconKeys").body:
-        if isinstance(st, ast.AnnAssign) and isinstance(st.target, ast.Name):
-            fields.append(st.target.id)
+    fields = _fields(ctx, "c2.BeaconKeys")
     ps = set(params(dp.node))
     for c in calls:
-        v = kwarg(c, "verify")
-        v_ok = v is not None and dotted(v) == "self.verify_hmac"
-        star = [k.value for k in c.keywords if k.arg is None]
-        star_ok = any(isinstance(s, ast.Call) and isinstance(s.func, ast.Attribute) and s.func.attr == "_asdict" for s in star)
-        explicit = {k.arg for k in c.keywords if k.arg}
-        keys_ok = star_ok or {"aes_key", "hmac_key"} <= explicit
-        ctx.ob("R8", "AGREE", f, src(c), v_ok and keys_ok,
-               f"verify bound to self.verify_hmac={v_ok}; keys forwarded={keys_ok}", c)
+        b = bind_args(c, dp.node)
+        v = kwarg(c, "verify") or (b.get("verify") if not any(k.arg is None for k in c.keywords) else None)
+        vi = _strip_bool(_inl(f, v)) if v is not None else None
+        v_ok = vi is not None and dotted(vi) == "self.verify_hmac"
+        star = [_inl(f, k.value) for k in c.keywords if k.arg is None]
+        star_keys = [s for s in star if isinstance(s, ast.Call) and isinstance(s.func, ast.Attribute) and s.func.attr == "_asdict" and not s.args]
+        explicit = {}
+        for p in ("aes_key", "hmac_key", "iv"):
+            a = kwarg(c, p) or (b.get(p) if not star else None)
+            explicit[p] = _inl(f, a) if a is not None else None
+        if star_keys:
+            keys_ok = ctx.rs.expr_type(f, star_keys[0].func.value) in (None, "c2.BeaconKeys")
+            how = f"**{src(star_keys[0])}"
+        else:
+            objs = set()
+            for p, a in explicit.items():
+                objs.add(dotted(a)[: -len(p) - 1] if a is not None and dotted(a) and dotted(a).endswith("." + p) else None)
+            keys_ok = len(objs) == 1 and None not in objs
+            how = "explicit " + ", ".join(f"{p}={src(a)}" for p, a in explicit.items())
+            if star and not keys_ok:
+                ctx.undecided("R8", "AGREE", f, "decrypt_packet(verify=self.verify_hmac, <session keys>)", f"keys forwarded through {[src(s) for s in star]}: not understood", c)
+                continue
+        ctx.ob("R8", "AGREE", f, "decrypt_packet(verify=self.verify_hmac, <session keys>)", v_ok and keys_ok,
+               f"verify bound to self.verify_hmac={v_ok} (is {src(vi)}); aes_key, hmac_key and iv of one key set forwarded={keys_ok} ({how})", c)
     ctx.ob("R8", "AGREE", dp, "BeaconKeys fields", set(fields) <= ps and {"aes_key", "hmac_key", "iv"} <= set(fields),
            f"BeaconKeys fields {fields} must be parameters of decrypt_packet {sorted(ps)}", dp.node)
     # C2Http stores verify_hmac from its parameter
     init = ctx.repo.func("c2.C2Http.__init__")
-    st_ok = any(isinstance(s, ast.Assign) and dotted(s.targets[0]) == "self.verify_hmac" and dotted(s.value) == "verify_hmac" for s in statements(init.node))
-    d = param_defaults(init.node).get("verify_hmac")
-    ctx.ob("R8", "AGREE", init, "self.verify_hmac = verify_hmac", st_ok and is_const(d, True), f"stored from parameter={st_ok}, default={src(d)} (True)", init.node)
+    stores = []
+    for s in statements(init.node):
+        tgts = s.targets if isinstance(s, ast.Assign) else [s.target] if isinstance(s, ast.AnnAssign) and s.value is not None else []
+        if any(dotted(t) == "self.verify_hmac" for t in tgts):
+            stores.append(s)
+    text = "self.verify_hmac = <verify_hmac parameter, default True>"
+    if not stores:
+        ctx.undecided("R8", "AGREE", init, text, "no plain assignment to self.verify_hmac in C2Http.__init__", init.node)
+    for s in stores:
+        val = _strip_bool(_inl(init, s.value))
+        p = dotted(val)
+        is_param = p in params(init.node) and not assignments_to(init.node, p)
+        d = param_defaults(init.node).get(p) if is_param else None
+        ctx.ob("R8", "AGREE", init, text, is_param and d is not None and _cval(d) is True,
+               f"stored from parameter={is_param} ({src(val)}), default={src(d)} (True)", s)
